@@ -28,39 +28,29 @@ variable {K : Type} [Field K] [LinearOrder K]
 
 
 set_option maxHeartbeats 4000000 in
-/-- `grad_euler_i_additive_11`: backprop `gy_0_0` = forward derivative `ty_0_0` -/
-theorem grad_euler_i_additive_11_gy_0_0  (f : K → K → K → K) (f_d1 : K → K → K → K) (f_d2 : K → K → K → K) (g : K → K → K) (g_d1 : K → K → K) (t0 t2 dt y0_0_0 theta v_0_0 dW0_0_0 dW1_0_0 : K) :
-    Gen.grad_euler_i_additive_11_gy_0_0 f f_d1 f_d2 g g_d1 t0 t2 dt y0_0_0 theta v_0_0 dW0_0_0 dW1_0_0 = Gen.grad_euler_i_additive_11_ty_0_0 f f_d1 f_d2 g g_d1 t0 t2 dt y0_0_0 theta v_0_0 dW0_0_0 dW1_0_0 := by
-  simp only [Gen.grad_euler_i_additive_11_gy_0_0, Gen.grad_euler_i_additive_11_ty_0_0]
-  generalize Gen.grad_euler_i_additive_11_f_d1_9c7524f038aa f f_d1 f_d2 g g_d1 t0 t2 dt y0_0_0 theta v_0_0 dW0_0_0 dW1_0_0 = a0
-  generalize Gen.grad_euler_i_additive_11_f_d1_b39c2b677c13 f f_d1 f_d2 g g_d1 t0 t2 dt y0_0_0 theta v_0_0 dW0_0_0 dW1_0_0 = a1
+/-- `gradp_euler_i_diagonal_11`: backprop `gth` = forward derivative `tth` -/
+theorem gradp_euler_i_diagonal_11_gth  (f : K → K → K → K) (f_d1 : K → K → K → K) (f_d2 : K → K → K → K) (g : K → K → K → K) (g_d1 : K → K → K → K) (g_d2 : K → K → K → K) (t0 t2 dt y0_0_0 theta v_0_0 dW0_0_0 dW1_0_0 : K) :
+    Gen.gradp_euler_i_diagonal_11_gth f f_d1 f_d2 g g_d1 g_d2 t0 t2 dt y0_0_0 theta v_0_0 dW0_0_0 dW1_0_0 = Gen.gradp_euler_i_diagonal_11_tth f f_d1 f_d2 g g_d1 g_d2 t0 t2 dt y0_0_0 theta v_0_0 dW0_0_0 dW1_0_0 := by
+  simp only [Gen.gradp_euler_i_diagonal_11_gth, Gen.gradp_euler_i_diagonal_11_tth]
+  generalize Gen.gradp_euler_i_diagonal_11_f_d1_c5cd2284f49d f f_d1 f_d2 g g_d1 g_d2 t0 t2 dt y0_0_0 theta v_0_0 dW0_0_0 dW1_0_0 = a0
+  generalize Gen.gradp_euler_i_diagonal_11_f_d2_75ad011491cf f f_d1 f_d2 g g_d1 g_d2 t0 t2 dt y0_0_0 theta v_0_0 dW0_0_0 dW1_0_0 = a1
+  generalize Gen.gradp_euler_i_diagonal_11_f_d2_f2902e1bab85 f f_d1 f_d2 g g_d1 g_d2 t0 t2 dt y0_0_0 theta v_0_0 dW0_0_0 dW1_0_0 = a2
+  generalize Gen.gradp_euler_i_diagonal_11_g_d1_a2931f36efaa f f_d1 f_d2 g g_d1 g_d2 t0 t2 dt y0_0_0 theta v_0_0 dW0_0_0 dW1_0_0 = a3
+  generalize Gen.gradp_euler_i_diagonal_11_g_d2_722b7a6bbfae f f_d1 f_d2 g g_d1 g_d2 t0 t2 dt y0_0_0 theta v_0_0 dW0_0_0 dW1_0_0 = a4
+  generalize Gen.gradp_euler_i_diagonal_11_g_d2_b2655ef31e85 f f_d1 f_d2 g g_d1 g_d2 t0 t2 dt y0_0_0 theta v_0_0 dW0_0_0 dW1_0_0 = a5
   ring
 
 set_option maxHeartbeats 4000000 in
-/-- `grad_euler_i_additive_11`: backprop `gth` = forward derivative `tth` -/
-theorem grad_euler_i_additive_11_gth  (f : K → K → K → K) (f_d1 : K → K → K → K) (f_d2 : K → K → K → K) (g : K → K → K) (g_d1 : K → K → K) (t0 t2 dt y0_0_0 theta v_0_0 dW0_0_0 dW1_0_0 : K) :
-    Gen.grad_euler_i_additive_11_gth f f_d1 f_d2 g g_d1 t0 t2 dt y0_0_0 theta v_0_0 dW0_0_0 dW1_0_0 = Gen.grad_euler_i_additive_11_tth f f_d1 f_d2 g g_d1 t0 t2 dt y0_0_0 theta v_0_0 dW0_0_0 dW1_0_0 := by
-  simp only [Gen.grad_euler_i_additive_11_gth, Gen.grad_euler_i_additive_11_tth]
-  generalize Gen.grad_euler_i_additive_11_f_d1_9c7524f038aa f f_d1 f_d2 g g_d1 t0 t2 dt y0_0_0 theta v_0_0 dW0_0_0 dW1_0_0 = a0
-  generalize Gen.grad_euler_i_additive_11_f_d2_4894b01bac57 f f_d1 f_d2 g g_d1 t0 t2 dt y0_0_0 theta v_0_0 dW0_0_0 dW1_0_0 = a1
-  generalize Gen.grad_euler_i_additive_11_f_d2_75ad011491cf f f_d1 f_d2 g g_d1 t0 t2 dt y0_0_0 theta v_0_0 dW0_0_0 dW1_0_0 = a2
-  generalize Gen.grad_euler_i_additive_11_g_d1_39aaf857762f f f_d1 f_d2 g g_d1 t0 t2 dt y0_0_0 theta v_0_0 dW0_0_0 dW1_0_0 = a3
-  generalize Gen.grad_euler_i_additive_11_g_d1_3d49352567ba f f_d1 f_d2 g g_d1 t0 t2 dt y0_0_0 theta v_0_0 dW0_0_0 dW1_0_0 = a4
-  ring
-
-set_option maxHeartbeats 4000000 in
-/-- `grad_milstein_i_scalar_11`: backprop `gy_0_0` = forward derivative `ty_0_0` -/
-theorem grad_milstein_i_scalar_11_gy_0_0  (f : K → K → K → K) (f_d1 : K → K → K → K) (f_d2 : K → K → K → K) (g : K → K → K → K) (g_d1 : K → K → K → K) (g_d11 : K → K → K → K) (g_d12 : K → K → K → K) (g_d2 : K → K → K → K) (t0 t2 dt y0_0_0 theta v_0_0 dW0_0_0 dW1_0_0 : K) :
-    Gen.grad_milstein_i_scalar_11_gy_0_0 f f_d1 f_d2 g g_d1 g_d11 g_d12 g_d2 t0 t2 dt y0_0_0 theta v_0_0 dW0_0_0 dW1_0_0 = Gen.grad_milstein_i_scalar_11_ty_0_0 f f_d1 f_d2 g g_d1 g_d11 g_d12 g_d2 t0 t2 dt y0_0_0 theta v_0_0 dW0_0_0 dW1_0_0 := by
-  simp only [Gen.grad_milstein_i_scalar_11_gy_0_0, Gen.grad_milstein_i_scalar_11_ty_0_0]
-  generalize Gen.grad_milstein_i_scalar_11_f_d1_489ec9895782 f f_d1 f_d2 g g_d1 g_d11 g_d12 g_d2 t0 t2 dt y0_0_0 theta v_0_0 dW0_0_0 dW1_0_0 = a0
-  generalize Gen.grad_milstein_i_scalar_11_f_d1_b39c2b677c13 f f_d1 f_d2 g g_d1 g_d11 g_d12 g_d2 t0 t2 dt y0_0_0 theta v_0_0 dW0_0_0 dW1_0_0 = a1
-  generalize Gen.grad_milstein_i_scalar_11_g_70f35061c2d0 f f_d1 f_d2 g g_d1 g_d11 g_d12 g_d2 t0 t2 dt y0_0_0 theta v_0_0 dW0_0_0 dW1_0_0 = a2
-  generalize Gen.grad_milstein_i_scalar_11_g_d11_8064c5c39114 f f_d1 f_d2 g g_d1 g_d11 g_d12 g_d2 t0 t2 dt y0_0_0 theta v_0_0 dW0_0_0 dW1_0_0 = a3
-  generalize Gen.grad_milstein_i_scalar_11_g_d11_9d3773187952 f f_d1 f_d2 g g_d1 g_d11 g_d12 g_d2 t0 t2 dt y0_0_0 theta v_0_0 dW0_0_0 dW1_0_0 = a4
-  generalize Gen.grad_milstein_i_scalar_11_g_d1_ddd0c5e556e2 f f_d1 f_d2 g g_d1 g_d11 g_d12 g_d2 t0 t2 dt y0_0_0 theta v_0_0 dW0_0_0 dW1_0_0 = a5
-  generalize Gen.grad_milstein_i_scalar_11_g_d1_f7710a2eb195 f f_d1 f_d2 g g_d1 g_d11 g_d12 g_d2 t0 t2 dt y0_0_0 theta v_0_0 dW0_0_0 dW1_0_0 = a6
-  generalize Gen.grad_milstein_i_scalar_11_g_db15086d257d f f_d1 f_d2 g g_d1 g_d11 g_d12 g_d2 t0 t2 dt y0_0_0 theta v_0_0 dW0_0_0 dW1_0_0 = a7
+/-- `gradp_euler_i_general_11`: backprop `gth` = forward derivative `tth` -/
+theorem gradp_euler_i_general_11_gth  (f : K → K → K → K) (f_d1 : K → K → K → K) (f_d2 : K → K → K → K) (g : K → K → K → K) (g_d1 : K → K → K → K) (g_d2 : K → K → K → K) (t0 t2 dt y0_0_0 theta v_0_0 dW0_0_0 dW1_0_0 : K) :
+    Gen.gradp_euler_i_general_11_gth f f_d1 f_d2 g g_d1 g_d2 t0 t2 dt y0_0_0 theta v_0_0 dW0_0_0 dW1_0_0 = Gen.gradp_euler_i_general_11_tth f f_d1 f_d2 g g_d1 g_d2 t0 t2 dt y0_0_0 theta v_0_0 dW0_0_0 dW1_0_0 := by
+  simp only [Gen.gradp_euler_i_general_11_gth, Gen.gradp_euler_i_general_11_tth]
+  generalize Gen.gradp_euler_i_general_11_f_d1_c5cd2284f49d f f_d1 f_d2 g g_d1 g_d2 t0 t2 dt y0_0_0 theta v_0_0 dW0_0_0 dW1_0_0 = a0
+  generalize Gen.gradp_euler_i_general_11_f_d2_75ad011491cf f f_d1 f_d2 g g_d1 g_d2 t0 t2 dt y0_0_0 theta v_0_0 dW0_0_0 dW1_0_0 = a1
+  generalize Gen.gradp_euler_i_general_11_f_d2_f2902e1bab85 f f_d1 f_d2 g g_d1 g_d2 t0 t2 dt y0_0_0 theta v_0_0 dW0_0_0 dW1_0_0 = a2
+  generalize Gen.gradp_euler_i_general_11_g_d1_a2931f36efaa f f_d1 f_d2 g g_d1 g_d2 t0 t2 dt y0_0_0 theta v_0_0 dW0_0_0 dW1_0_0 = a3
+  generalize Gen.gradp_euler_i_general_11_g_d2_722b7a6bbfae f f_d1 f_d2 g g_d1 g_d2 t0 t2 dt y0_0_0 theta v_0_0 dW0_0_0 dW1_0_0 = a4
+  generalize Gen.gradp_euler_i_general_11_g_d2_b2655ef31e85 f f_d1 f_d2 g g_d1 g_d2 t0 t2 dt y0_0_0 theta v_0_0 dW0_0_0 dW1_0_0 = a5
   ring
 
 set_option maxHeartbeats 4000000 in
@@ -83,241 +73,279 @@ theorem grad_milstein_i_scalar_11_gth  (f : K → K → K → K) (f_d1 : K → K
   ring
 
 set_option maxHeartbeats 4000000 in
-/-- `grad_milstein_s_scalar_11_gf`: backprop `gy_0_0` = forward derivative `ty_0_0` -/
-theorem grad_milstein_s_scalar_11_gf_gy_0_0 (sqrt : K → K) (f : K → K → K → K) (f_d1 : K → K → K → K) (f_d2 : K → K → K → K) (g : K → K → K → K) (g_d1 : K → K → K → K) (g_d2 : K → K → K → K) (t0 t2 dt y0_0_0 theta v_0_0 dW0_0_0 dW1_0_0 : K) :
-    Gen.grad_milstein_s_scalar_11_gf_gy_0_0 sqrt f f_d1 f_d2 g g_d1 g_d2 t0 t2 dt y0_0_0 theta v_0_0 dW0_0_0 dW1_0_0 = Gen.grad_milstein_s_scalar_11_gf_ty_0_0 sqrt f f_d1 f_d2 g g_d1 g_d2 t0 t2 dt y0_0_0 theta v_0_0 dW0_0_0 dW1_0_0 := by
-  simp only [Gen.grad_milstein_s_scalar_11_gf_gy_0_0, Gen.grad_milstein_s_scalar_11_gf_ty_0_0]
-  generalize Gen.grad_milstein_s_scalar_11_gf_f_d1_86118593e648 sqrt f f_d1 f_d2 g g_d1 g_d2 t0 t2 dt y0_0_0 theta v_0_0 dW0_0_0 dW1_0_0 = a0
-  generalize Gen.grad_milstein_s_scalar_11_gf_f_d1_b39c2b677c13 sqrt f f_d1 f_d2 g g_d1 g_d2 t0 t2 dt y0_0_0 theta v_0_0 dW0_0_0 dW1_0_0 = a1
-  generalize Gen.grad_milstein_s_scalar_11_gf_g_d1_0e6b2c0fdde1 sqrt f f_d1 f_d2 g g_d1 g_d2 t0 t2 dt y0_0_0 theta v_0_0 dW0_0_0 dW1_0_0 = a2
-  generalize Gen.grad_milstein_s_scalar_11_gf_g_d1_5313a806fc11 sqrt f f_d1 f_d2 g g_d1 g_d2 t0 t2 dt y0_0_0 theta v_0_0 dW0_0_0 dW1_0_0 = a3
-  generalize Gen.grad_milstein_s_scalar_11_gf_g_d1_62a0330e4979 sqrt f f_d1 f_d2 g g_d1 g_d2 t0 t2 dt y0_0_0 theta v_0_0 dW0_0_0 dW1_0_0 = a4
-  generalize Gen.grad_milstein_s_scalar_11_gf_g_d1_abf59d802044 sqrt f f_d1 f_d2 g g_d1 g_d2 t0 t2 dt y0_0_0 theta v_0_0 dW0_0_0 dW1_0_0 = a5
-  generalize Gen.grad_milstein_s_scalar_11_gf_g_d1_c499cf12888f sqrt f f_d1 f_d2 g g_d1 g_d2 t0 t2 dt y0_0_0 theta v_0_0 dW0_0_0 dW1_0_0 = a6
-  generalize Gen.grad_milstein_s_scalar_11_gf_g_d1_ddd0c5e556e2 sqrt f f_d1 f_d2 g g_d1 g_d2 t0 t2 dt y0_0_0 theta v_0_0 dW0_0_0 dW1_0_0 = a7
+/-- `grad_milstein_i_scalar_11`: backprop `gy_0_0` = forward derivative `ty_0_0` -/
+theorem grad_milstein_i_scalar_11_gy_0_0  (f : K → K → K → K) (f_d1 : K → K → K → K) (f_d2 : K → K → K → K) (g : K → K → K → K) (g_d1 : K → K → K → K) (g_d11 : K → K → K → K) (g_d12 : K → K → K → K) (g_d2 : K → K → K → K) (t0 t2 dt y0_0_0 theta v_0_0 dW0_0_0 dW1_0_0 : K) :
+    Gen.grad_milstein_i_scalar_11_gy_0_0 f f_d1 f_d2 g g_d1 g_d11 g_d12 g_d2 t0 t2 dt y0_0_0 theta v_0_0 dW0_0_0 dW1_0_0 = Gen.grad_milstein_i_scalar_11_ty_0_0 f f_d1 f_d2 g g_d1 g_d11 g_d12 g_d2 t0 t2 dt y0_0_0 theta v_0_0 dW0_0_0 dW1_0_0 := by
+  simp only [Gen.grad_milstein_i_scalar_11_gy_0_0, Gen.grad_milstein_i_scalar_11_ty_0_0]
+  generalize Gen.grad_milstein_i_scalar_11_f_d1_489ec9895782 f f_d1 f_d2 g g_d1 g_d11 g_d12 g_d2 t0 t2 dt y0_0_0 theta v_0_0 dW0_0_0 dW1_0_0 = a0
+  generalize Gen.grad_milstein_i_scalar_11_f_d1_b39c2b677c13 f f_d1 f_d2 g g_d1 g_d11 g_d12 g_d2 t0 t2 dt y0_0_0 theta v_0_0 dW0_0_0 dW1_0_0 = a1
+  generalize Gen.grad_milstein_i_scalar_11_g_70f35061c2d0 f f_d1 f_d2 g g_d1 g_d11 g_d12 g_d2 t0 t2 dt y0_0_0 theta v_0_0 dW0_0_0 dW1_0_0 = a2
+  generalize Gen.grad_milstein_i_scalar_11_g_d11_8064c5c39114 f f_d1 f_d2 g g_d1 g_d11 g_d12 g_d2 t0 t2 dt y0_0_0 theta v_0_0 dW0_0_0 dW1_0_0 = a3
+  generalize Gen.grad_milstein_i_scalar_11_g_d11_9d3773187952 f f_d1 f_d2 g g_d1 g_d11 g_d12 g_d2 t0 t2 dt y0_0_0 theta v_0_0 dW0_0_0 dW1_0_0 = a4
+  generalize Gen.grad_milstein_i_scalar_11_g_d1_ddd0c5e556e2 f f_d1 f_d2 g g_d1 g_d11 g_d12 g_d2 t0 t2 dt y0_0_0 theta v_0_0 dW0_0_0 dW1_0_0 = a5
+  generalize Gen.grad_milstein_i_scalar_11_g_d1_f7710a2eb195 f f_d1 f_d2 g g_d1 g_d11 g_d12 g_d2 t0 t2 dt y0_0_0 theta v_0_0 dW0_0_0 dW1_0_0 = a6
+  generalize Gen.grad_milstein_i_scalar_11_g_db15086d257d f f_d1 f_d2 g g_d1 g_d11 g_d12 g_d2 t0 t2 dt y0_0_0 theta v_0_0 dW0_0_0 dW1_0_0 = a7
   ring
 
 set_option maxHeartbeats 4000000 in
-/-- `grad_milstein_s_scalar_11_gf`: backprop `gth` = forward derivative `tth` -/
-theorem grad_milstein_s_scalar_11_gf_gth (sqrt : K → K) (f : K → K → K → K) (f_d1 : K → K → K → K) (f_d2 : K → K → K → K) (g : K → K → K → K) (g_d1 : K → K → K → K) (g_d2 : K → K → K → K) (t0 t2 dt y0_0_0 theta v_0_0 dW0_0_0 dW1_0_0 : K) :
-    Gen.grad_milstein_s_scalar_11_gf_gth sqrt f f_d1 f_d2 g g_d1 g_d2 t0 t2 dt y0_0_0 theta v_0_0 dW0_0_0 dW1_0_0 = Gen.grad_milstein_s_scalar_11_gf_tth sqrt f f_d1 f_d2 g g_d1 g_d2 t0 t2 dt y0_0_0 theta v_0_0 dW0_0_0 dW1_0_0 := by
-  simp only [Gen.grad_milstein_s_scalar_11_gf_gth, Gen.grad_milstein_s_scalar_11_gf_tth]
-  generalize Gen.grad_milstein_s_scalar_11_gf_f_d1_86118593e648 sqrt f f_d1 f_d2 g g_d1 g_d2 t0 t2 dt y0_0_0 theta v_0_0 dW0_0_0 dW1_0_0 = a0
-  generalize Gen.grad_milstein_s_scalar_11_gf_f_d2_75ad011491cf sqrt f f_d1 f_d2 g g_d1 g_d2 t0 t2 dt y0_0_0 theta v_0_0 dW0_0_0 dW1_0_0 = a1
-  generalize Gen.grad_milstein_s_scalar_11_gf_f_d2_bd981b19cbe7 sqrt f f_d1 f_d2 g g_d1 g_d2 t0 t2 dt y0_0_0 theta v_0_0 dW0_0_0 dW1_0_0 = a2
-  generalize Gen.grad_milstein_s_scalar_11_gf_g_d1_0e6b2c0fdde1 sqrt f f_d1 f_d2 g g_d1 g_d2 t0 t2 dt y0_0_0 theta v_0_0 dW0_0_0 dW1_0_0 = a3
-  generalize Gen.grad_milstein_s_scalar_11_gf_g_d1_5313a806fc11 sqrt f f_d1 f_d2 g g_d1 g_d2 t0 t2 dt y0_0_0 theta v_0_0 dW0_0_0 dW1_0_0 = a4
-  generalize Gen.grad_milstein_s_scalar_11_gf_g_d1_62a0330e4979 sqrt f f_d1 f_d2 g g_d1 g_d2 t0 t2 dt y0_0_0 theta v_0_0 dW0_0_0 dW1_0_0 = a5
-  generalize Gen.grad_milstein_s_scalar_11_gf_g_d1_abf59d802044 sqrt f f_d1 f_d2 g g_d1 g_d2 t0 t2 dt y0_0_0 theta v_0_0 dW0_0_0 dW1_0_0 = a6
-  generalize Gen.grad_milstein_s_scalar_11_gf_g_d1_c499cf12888f sqrt f f_d1 f_d2 g g_d1 g_d2 t0 t2 dt y0_0_0 theta v_0_0 dW0_0_0 dW1_0_0 = a7
-  generalize Gen.grad_milstein_s_scalar_11_gf_g_d2_41ada98a6bb9 sqrt f f_d1 f_d2 g g_d1 g_d2 t0 t2 dt y0_0_0 theta v_0_0 dW0_0_0 dW1_0_0 = a8
-  generalize Gen.grad_milstein_s_scalar_11_gf_g_d2_722b7a6bbfae sqrt f f_d1 f_d2 g g_d1 g_d2 t0 t2 dt y0_0_0 theta v_0_0 dW0_0_0 dW1_0_0 = a9
-  generalize Gen.grad_milstein_s_scalar_11_gf_g_d2_80b836f059fa sqrt f f_d1 f_d2 g g_d1 g_d2 t0 t2 dt y0_0_0 theta v_0_0 dW0_0_0 dW1_0_0 = a10
-  generalize Gen.grad_milstein_s_scalar_11_gf_g_d2_e32481f40965 sqrt f f_d1 f_d2 g g_d1 g_d2 t0 t2 dt y0_0_0 theta v_0_0 dW0_0_0 dW1_0_0 = a11
-  generalize Gen.grad_milstein_s_scalar_11_gf_g_d2_fc09d64533e7 sqrt f f_d1 f_d2 g g_d1 g_d2 t0 t2 dt y0_0_0 theta v_0_0 dW0_0_0 dW1_0_0 = a12
-  generalize Gen.grad_milstein_s_scalar_11_gf_g_d2_fc9434643c51 sqrt f f_d1 f_d2 g g_d1 g_d2 t0 t2 dt y0_0_0 theta v_0_0 dW0_0_0 dW1_0_0 = a13
+/-- `grad_milstein_s_additive_11`: backprop `gth` = forward derivative `tth` -/
+theorem grad_milstein_s_additive_11_gth  (f : K → K → K → K) (f_d1 : K → K → K → K) (f_d2 : K → K → K → K) (g : K → K → K) (g_d1 : K → K → K) (t0 t2 dt y0_0_0 theta v_0_0 dW0_0_0 dW1_0_0 : K) :
+    Gen.grad_milstein_s_additive_11_gth f f_d1 f_d2 g g_d1 t0 t2 dt y0_0_0 theta v_0_0 dW0_0_0 dW1_0_0 = Gen.grad_milstein_s_additive_11_tth f f_d1 f_d2 g g_d1 t0 t2 dt y0_0_0 theta v_0_0 dW0_0_0 dW1_0_0 := by
+  simp only [Gen.grad_milstein_s_additive_11_gth, Gen.grad_milstein_s_additive_11_tth]
+  generalize Gen.grad_milstein_s_additive_11_f_d1_d092e7b2f9b4 f f_d1 f_d2 g g_d1 t0 t2 dt y0_0_0 theta v_0_0 dW0_0_0 dW1_0_0 = a0
+  generalize Gen.grad_milstein_s_additive_11_f_d2_68c7ff182560 f f_d1 f_d2 g g_d1 t0 t2 dt y0_0_0 theta v_0_0 dW0_0_0 dW1_0_0 = a1
+  generalize Gen.grad_milstein_s_additive_11_f_d2_75ad011491cf f f_d1 f_d2 g g_d1 t0 t2 dt y0_0_0 theta v_0_0 dW0_0_0 dW1_0_0 = a2
+  generalize Gen.grad_milstein_s_additive_11_g_d1_39aaf857762f f f_d1 f_d2 g g_d1 t0 t2 dt y0_0_0 theta v_0_0 dW0_0_0 dW1_0_0 = a3
+  generalize Gen.grad_milstein_s_additive_11_g_d1_3d49352567ba f f_d1 f_d2 g g_d1 t0 t2 dt y0_0_0 theta v_0_0 dW0_0_0 dW1_0_0 = a4
   ring
 
 set_option maxHeartbeats 4000000 in
-/-- `grad_euler_heun_s_scalar_11`: backprop `gy_0_0` = forward derivative `ty_0_0` -/
-theorem grad_euler_heun_s_scalar_11_gy_0_0  (f : K → K → K → K) (f_d1 : K → K → K → K) (f_d2 : K → K → K → K) (g : K → K → K → K) (g_d1 : K → K → K → K) (g_d2 : K → K → K → K) (t0 t2 dt y0_0_0 theta v_0_0 dW0_0_0 dW1_0_0 : K) :
-    Gen.grad_euler_heun_s_scalar_11_gy_0_0 f f_d1 f_d2 g g_d1 g_d2 t0 t2 dt y0_0_0 theta v_0_0 dW0_0_0 dW1_0_0 = Gen.grad_euler_heun_s_scalar_11_ty_0_0 f f_d1 f_d2 g g_d1 g_d2 t0 t2 dt y0_0_0 theta v_0_0 dW0_0_0 dW1_0_0 := by
-  simp only [Gen.grad_euler_heun_s_scalar_11_gy_0_0, Gen.grad_euler_heun_s_scalar_11_ty_0_0]
-  generalize Gen.grad_euler_heun_s_scalar_11_f_d1_7cbdf16831d8 f f_d1 f_d2 g g_d1 g_d2 t0 t2 dt y0_0_0 theta v_0_0 dW0_0_0 dW1_0_0 = a0
-  generalize Gen.grad_euler_heun_s_scalar_11_f_d1_b39c2b677c13 f f_d1 f_d2 g g_d1 g_d2 t0 t2 dt y0_0_0 theta v_0_0 dW0_0_0 dW1_0_0 = a1
-  generalize Gen.grad_euler_heun_s_scalar_11_g_d1_53853b54eea6 f f_d1 f_d2 g g_d1 g_d2 t0 t2 dt y0_0_0 theta v_0_0 dW0_0_0 dW1_0_0 = a2
-  generalize Gen.grad_euler_heun_s_scalar_11_g_d1_5e54333cf929 f f_d1 f_d2 g g_d1 g_d2 t0 t2 dt y0_0_0 theta v_0_0 dW0_0_0 dW1_0_0 = a3
-  generalize Gen.grad_euler_heun_s_scalar_11_g_d1_b614375c6151 f f_d1 f_d2 g g_d1 g_d2 t0 t2 dt y0_0_0 theta v_0_0 dW0_0_0 dW1_0_0 = a4
-  generalize Gen.grad_euler_heun_s_scalar_11_g_d1_ddd0c5e556e2 f f_d1 f_d2 g g_d1 g_d2 t0 t2 dt y0_0_0 theta v_0_0 dW0_0_0 dW1_0_0 = a5
+/-- `grad_milstein_s_additive_11`: backprop `gy_0_0` = forward derivative `ty_0_0` -/
+theorem grad_milstein_s_additive_11_gy_0_0  (f : K → K → K → K) (f_d1 : K → K → K → K) (f_d2 : K → K → K → K) (g : K → K → K) (g_d1 : K → K → K) (t0 t2 dt y0_0_0 theta v_0_0 dW0_0_0 dW1_0_0 : K) :
+    Gen.grad_milstein_s_additive_11_gy_0_0 f f_d1 f_d2 g g_d1 t0 t2 dt y0_0_0 theta v_0_0 dW0_0_0 dW1_0_0 = Gen.grad_milstein_s_additive_11_ty_0_0 f f_d1 f_d2 g g_d1 t0 t2 dt y0_0_0 theta v_0_0 dW0_0_0 dW1_0_0 := by
+  simp only [Gen.grad_milstein_s_additive_11_gy_0_0, Gen.grad_milstein_s_additive_11_ty_0_0]
+  generalize Gen.grad_milstein_s_additive_11_f_d1_b39c2b677c13 f f_d1 f_d2 g g_d1 t0 t2 dt y0_0_0 theta v_0_0 dW0_0_0 dW1_0_0 = a0
+  generalize Gen.grad_milstein_s_additive_11_f_d1_d092e7b2f9b4 f f_d1 f_d2 g g_d1 t0 t2 dt y0_0_0 theta v_0_0 dW0_0_0 dW1_0_0 = a1
   ring
 
 set_option maxHeartbeats 4000000 in
-/-- `grad_euler_heun_s_scalar_11`: backprop `gth` = forward derivative `tth` -/
-theorem grad_euler_heun_s_scalar_11_gth  (f : K → K → K → K) (f_d1 : K → K → K → K) (f_d2 : K → K → K → K) (g : K → K → K → K) (g_d1 : K → K → K → K) (g_d2 : K → K → K → K) (t0 t2 dt y0_0_0 theta v_0_0 dW0_0_0 dW1_0_0 : K) :
-    Gen.grad_euler_heun_s_scalar_11_gth f f_d1 f_d2 g g_d1 g_d2 t0 t2 dt y0_0_0 theta v_0_0 dW0_0_0 dW1_0_0 = Gen.grad_euler_heun_s_scalar_11_tth f f_d1 f_d2 g g_d1 g_d2 t0 t2 dt y0_0_0 theta v_0_0 dW0_0_0 dW1_0_0 := by
-  simp only [Gen.grad_euler_heun_s_scalar_11_gth, Gen.grad_euler_heun_s_scalar_11_tth]
-  generalize Gen.grad_euler_heun_s_scalar_11_f_d1_7cbdf16831d8 f f_d1 f_d2 g g_d1 g_d2 t0 t2 dt y0_0_0 theta v_0_0 dW0_0_0 dW1_0_0 = a0
-  generalize Gen.grad_euler_heun_s_scalar_11_f_d2_75ad011491cf f f_d1 f_d2 g g_d1 g_d2 t0 t2 dt y0_0_0 theta v_0_0 dW0_0_0 dW1_0_0 = a1
-  generalize Gen.grad_euler_heun_s_scalar_11_f_d2_f32f36b49a22 f f_d1 f_d2 g g_d1 g_d2 t0 t2 dt y0_0_0 theta v_0_0 dW0_0_0 dW1_0_0 = a2
-  generalize Gen.grad_euler_heun_s_scalar_11_g_d1_53853b54eea6 f f_d1 f_d2 g g_d1 g_d2 t0 t2 dt y0_0_0 theta v_0_0 dW0_0_0 dW1_0_0 = a3
-  generalize Gen.grad_euler_heun_s_scalar_11_g_d1_5e54333cf929 f f_d1 f_d2 g g_d1 g_d2 t0 t2 dt y0_0_0 theta v_0_0 dW0_0_0 dW1_0_0 = a4
-  generalize Gen.grad_euler_heun_s_scalar_11_g_d1_b614375c6151 f f_d1 f_d2 g g_d1 g_d2 t0 t2 dt y0_0_0 theta v_0_0 dW0_0_0 dW1_0_0 = a5
-  generalize Gen.grad_euler_heun_s_scalar_11_g_d2_09a42bc83543 f f_d1 f_d2 g g_d1 g_d2 t0 t2 dt y0_0_0 theta v_0_0 dW0_0_0 dW1_0_0 = a6
-  generalize Gen.grad_euler_heun_s_scalar_11_g_d2_265183a04306 f f_d1 f_d2 g g_d1 g_d2 t0 t2 dt y0_0_0 theta v_0_0 dW0_0_0 dW1_0_0 = a7
-  generalize Gen.grad_euler_heun_s_scalar_11_g_d2_722b7a6bbfae f f_d1 f_d2 g g_d1 g_d2 t0 t2 dt y0_0_0 theta v_0_0 dW0_0_0 dW1_0_0 = a8
-  generalize Gen.grad_euler_heun_s_scalar_11_g_d2_db3783b54d14 f f_d1 f_d2 g g_d1 g_d2 t0 t2 dt y0_0_0 theta v_0_0 dW0_0_0 dW1_0_0 = a9
+/-- `gradp_srk_i_diagonal_11`: backprop `gth` = forward derivative `tth` -/
+theorem gradp_srk_i_diagonal_11_gth (sqrt : K → K) (f : K → K → K → K) (f_d1 : K → K → K → K) (f_d2 : K → K → K → K) (g : K → K → K → K) (g_d1 : K → K → K → K) (g_d2 : K → K → K → K) (t0 t2 dt y0_0_0 theta v_0_0 dW0_0_0 U0_0_0 : K) :
+    Gen.gradp_srk_i_diagonal_11_gth sqrt f f_d1 f_d2 g g_d1 g_d2 t0 t2 dt y0_0_0 theta v_0_0 dW0_0_0 U0_0_0 = Gen.gradp_srk_i_diagonal_11_tth sqrt f f_d1 f_d2 g g_d1 g_d2 t0 t2 dt y0_0_0 theta v_0_0 dW0_0_0 U0_0_0 := by
+  simp only [Gen.gradp_srk_i_diagonal_11_gth, Gen.gradp_srk_i_diagonal_11_tth]
+  generalize Gen.gradp_srk_i_diagonal_11_f_d1_a342043d5a17 sqrt f f_d1 f_d2 g g_d1 g_d2 t0 t2 dt y0_0_0 theta v_0_0 dW0_0_0 U0_0_0 = a0
+  generalize Gen.gradp_srk_i_diagonal_11_f_d1_d156dc18c48e sqrt f f_d1 f_d2 g g_d1 g_d2 t0 t2 dt y0_0_0 theta v_0_0 dW0_0_0 U0_0_0 = a1
+  generalize Gen.gradp_srk_i_diagonal_11_f_d1_eea9c406aae6 sqrt f f_d1 f_d2 g g_d1 g_d2 t0 t2 dt y0_0_0 theta v_0_0 dW0_0_0 U0_0_0 = a2
+  generalize Gen.gradp_srk_i_diagonal_11_f_d2_310d86aaeece sqrt f f_d1 f_d2 g g_d1 g_d2 t0 t2 dt y0_0_0 theta v_0_0 dW0_0_0 U0_0_0 = a3
+  generalize Gen.gradp_srk_i_diagonal_11_f_d2_43a8eccf42bd sqrt f f_d1 f_d2 g g_d1 g_d2 t0 t2 dt y0_0_0 theta v_0_0 dW0_0_0 U0_0_0 = a4
+  generalize Gen.gradp_srk_i_diagonal_11_f_d2_652b80508777 sqrt f f_d1 f_d2 g g_d1 g_d2 t0 t2 dt y0_0_0 theta v_0_0 dW0_0_0 U0_0_0 = a5
+  generalize Gen.gradp_srk_i_diagonal_11_f_d2_c1eb736ab027 sqrt f f_d1 f_d2 g g_d1 g_d2 t0 t2 dt y0_0_0 theta v_0_0 dW0_0_0 U0_0_0 = a6
+  generalize Gen.gradp_srk_i_diagonal_11_g_d1_3cc28ec53cea sqrt f f_d1 f_d2 g g_d1 g_d2 t0 t2 dt y0_0_0 theta v_0_0 dW0_0_0 U0_0_0 = a7
+  generalize Gen.gradp_srk_i_diagonal_11_g_d1_523c86524621 sqrt f f_d1 f_d2 g g_d1 g_d2 t0 t2 dt y0_0_0 theta v_0_0 dW0_0_0 U0_0_0 = a8
+  generalize Gen.gradp_srk_i_diagonal_11_g_d1_a6006d1b1274 sqrt f f_d1 f_d2 g g_d1 g_d2 t0 t2 dt y0_0_0 theta v_0_0 dW0_0_0 U0_0_0 = a9
+  generalize Gen.gradp_srk_i_diagonal_11_g_d2_0dc38bec0349 sqrt f f_d1 f_d2 g g_d1 g_d2 t0 t2 dt y0_0_0 theta v_0_0 dW0_0_0 U0_0_0 = a10
+  generalize Gen.gradp_srk_i_diagonal_11_g_d2_2f935788fb80 sqrt f f_d1 f_d2 g g_d1 g_d2 t0 t2 dt y0_0_0 theta v_0_0 dW0_0_0 U0_0_0 = a11
+  generalize Gen.gradp_srk_i_diagonal_11_g_d2_86f392ebaf1c sqrt f f_d1 f_d2 g g_d1 g_d2 t0 t2 dt y0_0_0 theta v_0_0 dW0_0_0 U0_0_0 = a12
+  generalize Gen.gradp_srk_i_diagonal_11_g_d2_ebe97742e314 sqrt f f_d1 f_d2 g g_d1 g_d2 t0 t2 dt y0_0_0 theta v_0_0 dW0_0_0 U0_0_0 = a13
   ring
 
 set_option maxHeartbeats 4000000 in
-/-- `grad_midpoint_s_diagonal_11`: backprop `gy_0_0` = forward derivative `ty_0_0` -/
-theorem grad_midpoint_s_diagonal_11_gy_0_0  (f : K → K → K → K) (f_d1 : K → K → K → K) (f_d2 : K → K → K → K) (g : K → K → K → K) (g_d1 : K → K → K → K) (g_d2 : K → K → K → K) (t0 t2 dt y0_0_0 theta v_0_0 dW0_0_0 dW1_0_0 : K) :
-    Gen.grad_midpoint_s_diagonal_11_gy_0_0 f f_d1 f_d2 g g_d1 g_d2 t0 t2 dt y0_0_0 theta v_0_0 dW0_0_0 dW1_0_0 = Gen.grad_midpoint_s_diagonal_11_ty_0_0 f f_d1 f_d2 g g_d1 g_d2 t0 t2 dt y0_0_0 theta v_0_0 dW0_0_0 dW1_0_0 := by
-  simp only [Gen.grad_midpoint_s_diagonal_11_gy_0_0, Gen.grad_midpoint_s_diagonal_11_ty_0_0]
-  generalize Gen.grad_midpoint_s_diagonal_11_f_d1_5ee6dd087015 f f_d1 f_d2 g g_d1 g_d2 t0 t2 dt y0_0_0 theta v_0_0 dW0_0_0 dW1_0_0 = a0
-  generalize Gen.grad_midpoint_s_diagonal_11_f_d1_703972b470e0 f f_d1 f_d2 g g_d1 g_d2 t0 t2 dt y0_0_0 theta v_0_0 dW0_0_0 dW1_0_0 = a1
-  generalize Gen.grad_midpoint_s_diagonal_11_f_d1_b39c2b677c13 f f_d1 f_d2 g g_d1 g_d2 t0 t2 dt y0_0_0 theta v_0_0 dW0_0_0 dW1_0_0 = a2
-  generalize Gen.grad_midpoint_s_diagonal_11_f_d1_ea194427e5d2 f f_d1 f_d2 g g_d1 g_d2 t0 t2 dt y0_0_0 theta v_0_0 dW0_0_0 dW1_0_0 = a3
-  generalize Gen.grad_midpoint_s_diagonal_11_g_d1_4cebf89ea8f9 f f_d1 f_d2 g g_d1 g_d2 t0 t2 dt y0_0_0 theta v_0_0 dW0_0_0 dW1_0_0 = a4
-  generalize Gen.grad_midpoint_s_diagonal_11_g_d1_6efd91c6bd6e f f_d1 f_d2 g g_d1 g_d2 t0 t2 dt y0_0_0 theta v_0_0 dW0_0_0 dW1_0_0 = a5
-  generalize Gen.grad_midpoint_s_diagonal_11_g_d1_76b5237ed2e6 f f_d1 f_d2 g g_d1 g_d2 t0 t2 dt y0_0_0 theta v_0_0 dW0_0_0 dW1_0_0 = a6
-  generalize Gen.grad_midpoint_s_diagonal_11_g_d1_ddd0c5e556e2 f f_d1 f_d2 g g_d1 g_d2 t0 t2 dt y0_0_0 theta v_0_0 dW0_0_0 dW1_0_0 = a7
+/-- `gradp_euler_heun_s_diagonal_11`: backprop `gth` = forward derivative `tth` -/
+theorem gradp_euler_heun_s_diagonal_11_gth  (f : K → K → K → K) (f_d1 : K → K → K → K) (f_d2 : K → K → K → K) (g : K → K → K → K) (g_d1 : K → K → K → K) (g_d2 : K → K → K → K) (t0 t2 dt y0_0_0 theta v_0_0 dW0_0_0 dW1_0_0 : K) :
+    Gen.gradp_euler_heun_s_diagonal_11_gth f f_d1 f_d2 g g_d1 g_d2 t0 t2 dt y0_0_0 theta v_0_0 dW0_0_0 dW1_0_0 = Gen.gradp_euler_heun_s_diagonal_11_tth f f_d1 f_d2 g g_d1 g_d2 t0 t2 dt y0_0_0 theta v_0_0 dW0_0_0 dW1_0_0 := by
+  simp only [Gen.gradp_euler_heun_s_diagonal_11_gth, Gen.gradp_euler_heun_s_diagonal_11_tth]
+  generalize Gen.gradp_euler_heun_s_diagonal_11_f_d1_7cbdf16831d8 f f_d1 f_d2 g g_d1 g_d2 t0 t2 dt y0_0_0 theta v_0_0 dW0_0_0 dW1_0_0 = a0
+  generalize Gen.gradp_euler_heun_s_diagonal_11_f_d2_75ad011491cf f f_d1 f_d2 g g_d1 g_d2 t0 t2 dt y0_0_0 theta v_0_0 dW0_0_0 dW1_0_0 = a1
+  generalize Gen.gradp_euler_heun_s_diagonal_11_f_d2_f32f36b49a22 f f_d1 f_d2 g g_d1 g_d2 t0 t2 dt y0_0_0 theta v_0_0 dW0_0_0 dW1_0_0 = a2
+  generalize Gen.gradp_euler_heun_s_diagonal_11_g_d1_53853b54eea6 f f_d1 f_d2 g g_d1 g_d2 t0 t2 dt y0_0_0 theta v_0_0 dW0_0_0 dW1_0_0 = a3
+  generalize Gen.gradp_euler_heun_s_diagonal_11_g_d1_5e54333cf929 f f_d1 f_d2 g g_d1 g_d2 t0 t2 dt y0_0_0 theta v_0_0 dW0_0_0 dW1_0_0 = a4
+  generalize Gen.gradp_euler_heun_s_diagonal_11_g_d1_b614375c6151 f f_d1 f_d2 g g_d1 g_d2 t0 t2 dt y0_0_0 theta v_0_0 dW0_0_0 dW1_0_0 = a5
+  generalize Gen.gradp_euler_heun_s_diagonal_11_g_d2_09a42bc83543 f f_d1 f_d2 g g_d1 g_d2 t0 t2 dt y0_0_0 theta v_0_0 dW0_0_0 dW1_0_0 = a6
+  generalize Gen.gradp_euler_heun_s_diagonal_11_g_d2_265183a04306 f f_d1 f_d2 g g_d1 g_d2 t0 t2 dt y0_0_0 theta v_0_0 dW0_0_0 dW1_0_0 = a7
+  generalize Gen.gradp_euler_heun_s_diagonal_11_g_d2_722b7a6bbfae f f_d1 f_d2 g g_d1 g_d2 t0 t2 dt y0_0_0 theta v_0_0 dW0_0_0 dW1_0_0 = a8
+  generalize Gen.gradp_euler_heun_s_diagonal_11_g_d2_db3783b54d14 f f_d1 f_d2 g g_d1 g_d2 t0 t2 dt y0_0_0 theta v_0_0 dW0_0_0 dW1_0_0 = a9
   ring
 
 set_option maxHeartbeats 4000000 in
-/-- `grad_midpoint_s_diagonal_11`: backprop `gth` = forward derivative `tth` -/
-theorem grad_midpoint_s_diagonal_11_gth  (f : K → K → K → K) (f_d1 : K → K → K → K) (f_d2 : K → K → K → K) (g : K → K → K → K) (g_d1 : K → K → K → K) (g_d2 : K → K → K → K) (t0 t2 dt y0_0_0 theta v_0_0 dW0_0_0 dW1_0_0 : K) :
-    Gen.grad_midpoint_s_diagonal_11_gth f f_d1 f_d2 g g_d1 g_d2 t0 t2 dt y0_0_0 theta v_0_0 dW0_0_0 dW1_0_0 = Gen.grad_midpoint_s_diagonal_11_tth f f_d1 f_d2 g g_d1 g_d2 t0 t2 dt y0_0_0 theta v_0_0 dW0_0_0 dW1_0_0 := by
-  simp only [Gen.grad_midpoint_s_diagonal_11_gth, Gen.grad_midpoint_s_diagonal_11_tth]
-  generalize Gen.grad_midpoint_s_diagonal_11_f_d1_5ee6dd087015 f f_d1 f_d2 g g_d1 g_d2 t0 t2 dt y0_0_0 theta v_0_0 dW0_0_0 dW1_0_0 = a0
-  generalize Gen.grad_midpoint_s_diagonal_11_f_d1_703972b470e0 f f_d1 f_d2 g g_d1 g_d2 t0 t2 dt y0_0_0 theta v_0_0 dW0_0_0 dW1_0_0 = a1
-  generalize Gen.grad_midpoint_s_diagonal_11_f_d1_ea194427e5d2 f f_d1 f_d2 g g_d1 g_d2 t0 t2 dt y0_0_0 theta v_0_0 dW0_0_0 dW1_0_0 = a2
-  generalize Gen.grad_midpoint_s_diagonal_11_f_d2_0b924ab0a277 f f_d1 f_d2 g g_d1 g_d2 t0 t2 dt y0_0_0 theta v_0_0 dW0_0_0 dW1_0_0 = a3
-  generalize Gen.grad_midpoint_s_diagonal_11_f_d2_75ad011491cf f f_d1 f_d2 g g_d1 g_d2 t0 t2 dt y0_0_0 theta v_0_0 dW0_0_0 dW1_0_0 = a4
-  generalize Gen.grad_midpoint_s_diagonal_11_f_d2_7af3983cc4c0 f f_d1 f_d2 g g_d1 g_d2 t0 t2 dt y0_0_0 theta v_0_0 dW0_0_0 dW1_0_0 = a5
-  generalize Gen.grad_midpoint_s_diagonal_11_f_d2_d7cbc9408b90 f f_d1 f_d2 g g_d1 g_d2 t0 t2 dt y0_0_0 theta v_0_0 dW0_0_0 dW1_0_0 = a6
-  generalize Gen.grad_midpoint_s_diagonal_11_g_d1_4cebf89ea8f9 f f_d1 f_d2 g g_d1 g_d2 t0 t2 dt y0_0_0 theta v_0_0 dW0_0_0 dW1_0_0 = a7
-  generalize Gen.grad_midpoint_s_diagonal_11_g_d1_6efd91c6bd6e f f_d1 f_d2 g g_d1 g_d2 t0 t2 dt y0_0_0 theta v_0_0 dW0_0_0 dW1_0_0 = a8
-  generalize Gen.grad_midpoint_s_diagonal_11_g_d1_76b5237ed2e6 f f_d1 f_d2 g g_d1 g_d2 t0 t2 dt y0_0_0 theta v_0_0 dW0_0_0 dW1_0_0 = a9
-  generalize Gen.grad_midpoint_s_diagonal_11_g_d2_722b7a6bbfae f f_d1 f_d2 g g_d1 g_d2 t0 t2 dt y0_0_0 theta v_0_0 dW0_0_0 dW1_0_0 = a10
-  generalize Gen.grad_midpoint_s_diagonal_11_g_d2_971f06219250 f f_d1 f_d2 g g_d1 g_d2 t0 t2 dt y0_0_0 theta v_0_0 dW0_0_0 dW1_0_0 = a11
-  generalize Gen.grad_midpoint_s_diagonal_11_g_d2_e3437f9b71a5 f f_d1 f_d2 g g_d1 g_d2 t0 t2 dt y0_0_0 theta v_0_0 dW0_0_0 dW1_0_0 = a12
-  generalize Gen.grad_midpoint_s_diagonal_11_g_d2_ee9a050cb9fa f f_d1 f_d2 g g_d1 g_d2 t0 t2 dt y0_0_0 theta v_0_0 dW0_0_0 dW1_0_0 = a13
+/-- `gradp_euler_heun_s_general_11`: backprop `gth` = forward derivative `tth` -/
+theorem gradp_euler_heun_s_general_11_gth  (f : K → K → K → K) (f_d1 : K → K → K → K) (f_d2 : K → K → K → K) (g : K → K → K → K) (g_d1 : K → K → K → K) (g_d2 : K → K → K → K) (t0 t2 dt y0_0_0 theta v_0_0 dW0_0_0 dW1_0_0 : K) :
+    Gen.gradp_euler_heun_s_general_11_gth f f_d1 f_d2 g g_d1 g_d2 t0 t2 dt y0_0_0 theta v_0_0 dW0_0_0 dW1_0_0 = Gen.gradp_euler_heun_s_general_11_tth f f_d1 f_d2 g g_d1 g_d2 t0 t2 dt y0_0_0 theta v_0_0 dW0_0_0 dW1_0_0 := by
+  simp only [Gen.gradp_euler_heun_s_general_11_gth, Gen.gradp_euler_heun_s_general_11_tth]
+  generalize Gen.gradp_euler_heun_s_general_11_f_d1_7cbdf16831d8 f f_d1 f_d2 g g_d1 g_d2 t0 t2 dt y0_0_0 theta v_0_0 dW0_0_0 dW1_0_0 = a0
+  generalize Gen.gradp_euler_heun_s_general_11_f_d2_75ad011491cf f f_d1 f_d2 g g_d1 g_d2 t0 t2 dt y0_0_0 theta v_0_0 dW0_0_0 dW1_0_0 = a1
+  generalize Gen.gradp_euler_heun_s_general_11_f_d2_f32f36b49a22 f f_d1 f_d2 g g_d1 g_d2 t0 t2 dt y0_0_0 theta v_0_0 dW0_0_0 dW1_0_0 = a2
+  generalize Gen.gradp_euler_heun_s_general_11_g_d1_53853b54eea6 f f_d1 f_d2 g g_d1 g_d2 t0 t2 dt y0_0_0 theta v_0_0 dW0_0_0 dW1_0_0 = a3
+  generalize Gen.gradp_euler_heun_s_general_11_g_d1_5e54333cf929 f f_d1 f_d2 g g_d1 g_d2 t0 t2 dt y0_0_0 theta v_0_0 dW0_0_0 dW1_0_0 = a4
+  generalize Gen.gradp_euler_heun_s_general_11_g_d1_b614375c6151 f f_d1 f_d2 g g_d1 g_d2 t0 t2 dt y0_0_0 theta v_0_0 dW0_0_0 dW1_0_0 = a5
+  generalize Gen.gradp_euler_heun_s_general_11_g_d2_09a42bc83543 f f_d1 f_d2 g g_d1 g_d2 t0 t2 dt y0_0_0 theta v_0_0 dW0_0_0 dW1_0_0 = a6
+  generalize Gen.gradp_euler_heun_s_general_11_g_d2_265183a04306 f f_d1 f_d2 g g_d1 g_d2 t0 t2 dt y0_0_0 theta v_0_0 dW0_0_0 dW1_0_0 = a7
+  generalize Gen.gradp_euler_heun_s_general_11_g_d2_722b7a6bbfae f f_d1 f_d2 g g_d1 g_d2 t0 t2 dt y0_0_0 theta v_0_0 dW0_0_0 dW1_0_0 = a8
+  generalize Gen.gradp_euler_heun_s_general_11_g_d2_db3783b54d14 f f_d1 f_d2 g g_d1 g_d2 t0 t2 dt y0_0_0 theta v_0_0 dW0_0_0 dW1_0_0 = a9
   ring
 
 set_option maxHeartbeats 4000000 in
-/-- `grad_log_ode_s_scalar_11`: backprop `gy_0_0` = forward derivative `ty_0_0` -/
-theorem grad_log_ode_s_scalar_11_gy_0_0  (f : K → K → K → K) (f_d1 : K → K → K → K) (f_d2 : K → K → K → K) (g : K → K → K → K) (g_d1 : K → K → K → K) (g_d2 : K → K → K → K) (t0 t2 dt y0_0_0 theta v_0_0 dW0_0_0 dW1_0_0 U0_0_0 U1_0_0 A0_0_0_0 A1_0_0_0 : K) :
-    Gen.grad_log_ode_s_scalar_11_gy_0_0 f f_d1 f_d2 g g_d1 g_d2 t0 t2 dt y0_0_0 theta v_0_0 dW0_0_0 dW1_0_0 U0_0_0 U1_0_0 A0_0_0_0 A1_0_0_0 = Gen.grad_log_ode_s_scalar_11_ty_0_0 f f_d1 f_d2 g g_d1 g_d2 t0 t2 dt y0_0_0 theta v_0_0 dW0_0_0 dW1_0_0 U0_0_0 U1_0_0 A0_0_0_0 A1_0_0_0 := by
-  simp only [Gen.grad_log_ode_s_scalar_11_gy_0_0, Gen.grad_log_ode_s_scalar_11_ty_0_0]
-  generalize Gen.grad_log_ode_s_scalar_11_f_d1_aa6e56519ae1 f f_d1 f_d2 g g_d1 g_d2 t0 t2 dt y0_0_0 theta v_0_0 dW0_0_0 dW1_0_0 U0_0_0 U1_0_0 A0_0_0_0 A1_0_0_0 = a0
-  generalize Gen.grad_log_ode_s_scalar_11_f_d1_b39c2b677c13 f f_d1 f_d2 g g_d1 g_d2 t0 t2 dt y0_0_0 theta v_0_0 dW0_0_0 dW1_0_0 U0_0_0 U1_0_0 A0_0_0_0 A1_0_0_0 = a1
-  generalize Gen.grad_log_ode_s_scalar_11_f_d1_c2712a6d7499 f f_d1 f_d2 g g_d1 g_d2 t0 t2 dt y0_0_0 theta v_0_0 dW0_0_0 dW1_0_0 U0_0_0 U1_0_0 A0_0_0_0 A1_0_0_0 = a2
-  generalize Gen.grad_log_ode_s_scalar_11_f_d1_ea194427e5d2 f f_d1 f_d2 g g_d1 g_d2 t0 t2 dt y0_0_0 theta v_0_0 dW0_0_0 dW1_0_0 U0_0_0 U1_0_0 A0_0_0_0 A1_0_0_0 = a3
-  generalize Gen.grad_log_ode_s_scalar_11_g_d1_76b5237ed2e6 f f_d1 f_d2 g g_d1 g_d2 t0 t2 dt y0_0_0 theta v_0_0 dW0_0_0 dW1_0_0 U0_0_0 U1_0_0 A0_0_0_0 A1_0_0_0 = a4
-  generalize Gen.grad_log_ode_s_scalar_11_g_d1_b39451c7c697 f f_d1 f_d2 g g_d1 g_d2 t0 t2 dt y0_0_0 theta v_0_0 dW0_0_0 dW1_0_0 U0_0_0 U1_0_0 A0_0_0_0 A1_0_0_0 = a5
-  generalize Gen.grad_log_ode_s_scalar_11_g_d1_d76ea1a1c502 f f_d1 f_d2 g g_d1 g_d2 t0 t2 dt y0_0_0 theta v_0_0 dW0_0_0 dW1_0_0 U0_0_0 U1_0_0 A0_0_0_0 A1_0_0_0 = a6
-  generalize Gen.grad_log_ode_s_scalar_11_g_d1_ddd0c5e556e2 f f_d1 f_d2 g g_d1 g_d2 t0 t2 dt y0_0_0 theta v_0_0 dW0_0_0 dW1_0_0 U0_0_0 U1_0_0 A0_0_0_0 A1_0_0_0 = a7
+/-- `gradp_heun_s_scalar_11`: backprop `gth` = forward derivative `tth` -/
+theorem gradp_heun_s_scalar_11_gth  (f : K → K → K → K) (f_d1 : K → K → K → K) (f_d2 : K → K → K → K) (g : K → K → K → K) (g_d1 : K → K → K → K) (g_d2 : K → K → K → K) (t0 t2 dt y0_0_0 theta v_0_0 dW0_0_0 dW1_0_0 : K) :
+    Gen.gradp_heun_s_scalar_11_gth f f_d1 f_d2 g g_d1 g_d2 t0 t2 dt y0_0_0 theta v_0_0 dW0_0_0 dW1_0_0 = Gen.gradp_heun_s_scalar_11_tth f f_d1 f_d2 g g_d1 g_d2 t0 t2 dt y0_0_0 theta v_0_0 dW0_0_0 dW1_0_0 := by
+  simp only [Gen.gradp_heun_s_scalar_11_gth, Gen.gradp_heun_s_scalar_11_tth]
+  generalize Gen.gradp_heun_s_scalar_11_f_d1_850996a283cd f f_d1 f_d2 g g_d1 g_d2 t0 t2 dt y0_0_0 theta v_0_0 dW0_0_0 dW1_0_0 = a0
+  generalize Gen.gradp_heun_s_scalar_11_f_d1_a0c409c02ee2 f f_d1 f_d2 g g_d1 g_d2 t0 t2 dt y0_0_0 theta v_0_0 dW0_0_0 dW1_0_0 = a1
+  generalize Gen.gradp_heun_s_scalar_11_f_d1_aa6f717505bc f f_d1 f_d2 g g_d1 g_d2 t0 t2 dt y0_0_0 theta v_0_0 dW0_0_0 dW1_0_0 = a2
+  generalize Gen.gradp_heun_s_scalar_11_f_d2_75ad011491cf f f_d1 f_d2 g g_d1 g_d2 t0 t2 dt y0_0_0 theta v_0_0 dW0_0_0 dW1_0_0 = a3
+  generalize Gen.gradp_heun_s_scalar_11_f_d2_85fb27cb9ecd f f_d1 f_d2 g g_d1 g_d2 t0 t2 dt y0_0_0 theta v_0_0 dW0_0_0 dW1_0_0 = a4
+  generalize Gen.gradp_heun_s_scalar_11_f_d2_f0ddd094ca46 f f_d1 f_d2 g g_d1 g_d2 t0 t2 dt y0_0_0 theta v_0_0 dW0_0_0 dW1_0_0 = a5
+  generalize Gen.gradp_heun_s_scalar_11_f_d2_f2b7d9350614 f f_d1 f_d2 g g_d1 g_d2 t0 t2 dt y0_0_0 theta v_0_0 dW0_0_0 dW1_0_0 = a6
+  generalize Gen.gradp_heun_s_scalar_11_g_d1_32d16569e2d0 f f_d1 f_d2 g g_d1 g_d2 t0 t2 dt y0_0_0 theta v_0_0 dW0_0_0 dW1_0_0 = a7
+  generalize Gen.gradp_heun_s_scalar_11_g_d1_506c676fd130 f f_d1 f_d2 g g_d1 g_d2 t0 t2 dt y0_0_0 theta v_0_0 dW0_0_0 dW1_0_0 = a8
+  generalize Gen.gradp_heun_s_scalar_11_g_d1_6a8c15d1c454 f f_d1 f_d2 g g_d1 g_d2 t0 t2 dt y0_0_0 theta v_0_0 dW0_0_0 dW1_0_0 = a9
+  generalize Gen.gradp_heun_s_scalar_11_g_d2_02f255630af5 f f_d1 f_d2 g g_d1 g_d2 t0 t2 dt y0_0_0 theta v_0_0 dW0_0_0 dW1_0_0 = a10
+  generalize Gen.gradp_heun_s_scalar_11_g_d2_4079b3c76e81 f f_d1 f_d2 g g_d1 g_d2 t0 t2 dt y0_0_0 theta v_0_0 dW0_0_0 dW1_0_0 = a11
+  generalize Gen.gradp_heun_s_scalar_11_g_d2_46fb04d4bfcb f f_d1 f_d2 g g_d1 g_d2 t0 t2 dt y0_0_0 theta v_0_0 dW0_0_0 dW1_0_0 = a12
+  generalize Gen.gradp_heun_s_scalar_11_g_d2_722b7a6bbfae f f_d1 f_d2 g g_d1 g_d2 t0 t2 dt y0_0_0 theta v_0_0 dW0_0_0 dW1_0_0 = a13
   ring
 
 set_option maxHeartbeats 4000000 in
-/-- `grad_log_ode_s_scalar_11`: backprop `gth` = forward derivative `tth` -/
-theorem grad_log_ode_s_scalar_11_gth  (f : K → K → K → K) (f_d1 : K → K → K → K) (f_d2 : K → K → K → K) (g : K → K → K → K) (g_d1 : K → K → K → K) (g_d2 : K → K → K → K) (t0 t2 dt y0_0_0 theta v_0_0 dW0_0_0 dW1_0_0 U0_0_0 U1_0_0 A0_0_0_0 A1_0_0_0 : K) :
-    Gen.grad_log_ode_s_scalar_11_gth f f_d1 f_d2 g g_d1 g_d2 t0 t2 dt y0_0_0 theta v_0_0 dW0_0_0 dW1_0_0 U0_0_0 U1_0_0 A0_0_0_0 A1_0_0_0 = Gen.grad_log_ode_s_scalar_11_tth f f_d1 f_d2 g g_d1 g_d2 t0 t2 dt y0_0_0 theta v_0_0 dW0_0_0 dW1_0_0 U0_0_0 U1_0_0 A0_0_0_0 A1_0_0_0 := by
-  simp only [Gen.grad_log_ode_s_scalar_11_gth, Gen.grad_log_ode_s_scalar_11_tth]
-  generalize Gen.grad_log_ode_s_scalar_11_f_d1_aa6e56519ae1 f f_d1 f_d2 g g_d1 g_d2 t0 t2 dt y0_0_0 theta v_0_0 dW0_0_0 dW1_0_0 U0_0_0 U1_0_0 A0_0_0_0 A1_0_0_0 = a0
-  generalize Gen.grad_log_ode_s_scalar_11_f_d1_c2712a6d7499 f f_d1 f_d2 g g_d1 g_d2 t0 t2 dt y0_0_0 theta v_0_0 dW0_0_0 dW1_0_0 U0_0_0 U1_0_0 A0_0_0_0 A1_0_0_0 = a1
-  generalize Gen.grad_log_ode_s_scalar_11_f_d1_ea194427e5d2 f f_d1 f_d2 g g_d1 g_d2 t0 t2 dt y0_0_0 theta v_0_0 dW0_0_0 dW1_0_0 U0_0_0 U1_0_0 A0_0_0_0 A1_0_0_0 = a2
-  generalize Gen.grad_log_ode_s_scalar_11_f_d2_6bf883ebc92c f f_d1 f_d2 g g_d1 g_d2 t0 t2 dt y0_0_0 theta v_0_0 dW0_0_0 dW1_0_0 U0_0_0 U1_0_0 A0_0_0_0 A1_0_0_0 = a3
-  generalize Gen.grad_log_ode_s_scalar_11_f_d2_75ad011491cf f f_d1 f_d2 g g_d1 g_d2 t0 t2 dt y0_0_0 theta v_0_0 dW0_0_0 dW1_0_0 U0_0_0 U1_0_0 A0_0_0_0 A1_0_0_0 = a4
-  generalize Gen.grad_log_ode_s_scalar_11_f_d2_9f37c3dc046f f f_d1 f_d2 g g_d1 g_d2 t0 t2 dt y0_0_0 theta v_0_0 dW0_0_0 dW1_0_0 U0_0_0 U1_0_0 A0_0_0_0 A1_0_0_0 = a5
-  generalize Gen.grad_log_ode_s_scalar_11_f_d2_d7cbc9408b90 f f_d1 f_d2 g g_d1 g_d2 t0 t2 dt y0_0_0 theta v_0_0 dW0_0_0 dW1_0_0 U0_0_0 U1_0_0 A0_0_0_0 A1_0_0_0 = a6
-  generalize Gen.grad_log_ode_s_scalar_11_g_d1_76b5237ed2e6 f f_d1 f_d2 g g_d1 g_d2 t0 t2 dt y0_0_0 theta v_0_0 dW0_0_0 dW1_0_0 U0_0_0 U1_0_0 A0_0_0_0 A1_0_0_0 = a7
-  generalize Gen.grad_log_ode_s_scalar_11_g_d1_b39451c7c697 f f_d1 f_d2 g g_d1 g_d2 t0 t2 dt y0_0_0 theta v_0_0 dW0_0_0 dW1_0_0 U0_0_0 U1_0_0 A0_0_0_0 A1_0_0_0 = a8
-  generalize Gen.grad_log_ode_s_scalar_11_g_d1_d76ea1a1c502 f f_d1 f_d2 g g_d1 g_d2 t0 t2 dt y0_0_0 theta v_0_0 dW0_0_0 dW1_0_0 U0_0_0 U1_0_0 A0_0_0_0 A1_0_0_0 = a9
-  generalize Gen.grad_log_ode_s_scalar_11_g_d2_39921a596628 f f_d1 f_d2 g g_d1 g_d2 t0 t2 dt y0_0_0 theta v_0_0 dW0_0_0 dW1_0_0 U0_0_0 U1_0_0 A0_0_0_0 A1_0_0_0 = a10
-  generalize Gen.grad_log_ode_s_scalar_11_g_d2_722b7a6bbfae f f_d1 f_d2 g g_d1 g_d2 t0 t2 dt y0_0_0 theta v_0_0 dW0_0_0 dW1_0_0 U0_0_0 U1_0_0 A0_0_0_0 A1_0_0_0 = a11
-  generalize Gen.grad_log_ode_s_scalar_11_g_d2_8f2c51adb79d f f_d1 f_d2 g g_d1 g_d2 t0 t2 dt y0_0_0 theta v_0_0 dW0_0_0 dW1_0_0 U0_0_0 U1_0_0 A0_0_0_0 A1_0_0_0 = a12
-  generalize Gen.grad_log_ode_s_scalar_11_g_d2_e3437f9b71a5 f f_d1 f_d2 g g_d1 g_d2 t0 t2 dt y0_0_0 theta v_0_0 dW0_0_0 dW1_0_0 U0_0_0 U1_0_0 A0_0_0_0 A1_0_0_0 = a13
+/-- `gradp_midpoint_s_additive_11`: backprop `gth` = forward derivative `tth` -/
+theorem gradp_midpoint_s_additive_11_gth  (f : K → K → K → K) (f_d1 : K → K → K → K) (f_d2 : K → K → K → K) (g : K → K → K) (g_d1 : K → K → K) (t0 t2 dt y0_0_0 theta v_0_0 dW0_0_0 dW1_0_0 : K) :
+    Gen.gradp_midpoint_s_additive_11_gth f f_d1 f_d2 g g_d1 t0 t2 dt y0_0_0 theta v_0_0 dW0_0_0 dW1_0_0 = Gen.gradp_midpoint_s_additive_11_tth f f_d1 f_d2 g g_d1 t0 t2 dt y0_0_0 theta v_0_0 dW0_0_0 dW1_0_0 := by
+  simp only [Gen.gradp_midpoint_s_additive_11_gth, Gen.gradp_midpoint_s_additive_11_tth]
+  generalize Gen.gradp_midpoint_s_additive_11_f_d1_3537ac68629d f f_d1 f_d2 g g_d1 t0 t2 dt y0_0_0 theta v_0_0 dW0_0_0 dW1_0_0 = a0
+  generalize Gen.gradp_midpoint_s_additive_11_f_d1_d3c7011ca226 f f_d1 f_d2 g g_d1 t0 t2 dt y0_0_0 theta v_0_0 dW0_0_0 dW1_0_0 = a1
+  generalize Gen.gradp_midpoint_s_additive_11_f_d1_e98ae284e0cb f f_d1 f_d2 g g_d1 t0 t2 dt y0_0_0 theta v_0_0 dW0_0_0 dW1_0_0 = a2
+  generalize Gen.gradp_midpoint_s_additive_11_f_d2_63ff648d88ba f f_d1 f_d2 g g_d1 t0 t2 dt y0_0_0 theta v_0_0 dW0_0_0 dW1_0_0 = a3
+  generalize Gen.gradp_midpoint_s_additive_11_f_d2_75ad011491cf f f_d1 f_d2 g g_d1 t0 t2 dt y0_0_0 theta v_0_0 dW0_0_0 dW1_0_0 = a4
+  generalize Gen.gradp_midpoint_s_additive_11_f_d2_84c7d30e17e3 f f_d1 f_d2 g g_d1 t0 t2 dt y0_0_0 theta v_0_0 dW0_0_0 dW1_0_0 = a5
+  generalize Gen.gradp_midpoint_s_additive_11_f_d2_9c26a268e4ad f f_d1 f_d2 g g_d1 t0 t2 dt y0_0_0 theta v_0_0 dW0_0_0 dW1_0_0 = a6
+  generalize Gen.gradp_midpoint_s_additive_11_g_d1_39aaf857762f f f_d1 f_d2 g g_d1 t0 t2 dt y0_0_0 theta v_0_0 dW0_0_0 dW1_0_0 = a7
+  generalize Gen.gradp_midpoint_s_additive_11_g_d1_3d49352567ba f f_d1 f_d2 g g_d1 t0 t2 dt y0_0_0 theta v_0_0 dW0_0_0 dW1_0_0 = a8
+  generalize Gen.gradp_midpoint_s_additive_11_g_d1_d6c79566b23d f f_d1 f_d2 g g_d1 t0 t2 dt y0_0_0 theta v_0_0 dW0_0_0 dW1_0_0 = a9
+  generalize Gen.gradp_midpoint_s_additive_11_g_d1_e503fc41dafc f f_d1 f_d2 g g_d1 t0 t2 dt y0_0_0 theta v_0_0 dW0_0_0 dW1_0_0 = a10
   ring
 
 set_option maxHeartbeats 4000000 in
-/-- `grad_euler_i_general_22`: backprop `gy_0_0` = forward derivative `ty_0_0` -/
-theorem grad_euler_i_general_22_gy_0_0  (f0 : K → K → K → K → K) (f0_d1 : K → K → K → K → K) (f0_d2 : K → K → K → K → K) (f0_d3 : K → K → K → K → K) (f1 : K → K → K → K → K) (f1_d1 : K → K → K → K → K) (f1_d2 : K → K → K → K → K) (f1_d3 : K → K → K → K → K) (g00 : K → K → K → K → K) (g00_d1 : K → K → K → K → K) (g00_d2 : K → K → K → K → K) (g00_d3 : K → K → K → K → K) (g01 : K → K → K → K → K) (g01_d1 : K → K → K → K → K) (g01_d2 : K → K → K → K → K) (g01_d3 : K → K → K → K → K) (g10 : K → K → K → K → K) (g10_d1 : K → K → K → K → K) (g10_d2 : K → K → K → K → K) (g10_d3 : K → K → K → K → K) (g11 : K → K → K → K → K) (g11_d1 : K → K → K → K → K) (g11_d2 : K → K → K → K → K) (g11_d3 : K → K → K → K → K) (t0 t2 dt y0_0_0 y0_0_1 theta v_0_0 v_0_1 dW0_0_0 dW0_0_1 : K) :
-    Gen.grad_euler_i_general_22_gy_0_0 f0 f0_d1 f0_d2 f0_d3 f1 f1_d1 f1_d2 f1_d3 g00 g00_d1 g00_d2 g00_d3 g01 g01_d1 g01_d2 g01_d3 g10 g10_d1 g10_d2 g10_d3 g11 g11_d1 g11_d2 g11_d3 t0 t2 dt y0_0_0 y0_0_1 theta v_0_0 v_0_1 dW0_0_0 dW0_0_1 = Gen.grad_euler_i_general_22_ty_0_0 f0 f0_d1 f0_d2 f0_d3 f1 f1_d1 f1_d2 f1_d3 g00 g00_d1 g00_d2 g00_d3 g01 g01_d1 g01_d2 g01_d3 g10 g10_d1 g10_d2 g10_d3 g11 g11_d1 g11_d2 g11_d3 t0 t2 dt y0_0_0 y0_0_1 theta v_0_0 v_0_1 dW0_0_0 dW0_0_1 := by
-  simp only [Gen.grad_euler_i_general_22_gy_0_0, Gen.grad_euler_i_general_22_ty_0_0]
-  generalize Gen.grad_euler_i_general_22_f0_d1_7762e1f68fca f0 f0_d1 f0_d2 f0_d3 f1 f1_d1 f1_d2 f1_d3 g00 g00_d1 g00_d2 g00_d3 g01 g01_d1 g01_d2 g01_d3 g10 g10_d1 g10_d2 g10_d3 g11 g11_d1 g11_d2 g11_d3 t0 t2 dt y0_0_0 y0_0_1 theta v_0_0 v_0_1 dW0_0_0 dW0_0_1 = a0
-  generalize Gen.grad_euler_i_general_22_f1_d1_1deef72810c1 f0 f0_d1 f0_d2 f0_d3 f1 f1_d1 f1_d2 f1_d3 g00 g00_d1 g00_d2 g00_d3 g01 g01_d1 g01_d2 g01_d3 g10 g10_d1 g10_d2 g10_d3 g11 g11_d1 g11_d2 g11_d3 t0 t2 dt y0_0_0 y0_0_1 theta v_0_0 v_0_1 dW0_0_0 dW0_0_1 = a1
-  generalize Gen.grad_euler_i_general_22_g00_d1_99e549f5f236 f0 f0_d1 f0_d2 f0_d3 f1 f1_d1 f1_d2 f1_d3 g00 g00_d1 g00_d2 g00_d3 g01 g01_d1 g01_d2 g01_d3 g10 g10_d1 g10_d2 g10_d3 g11 g11_d1 g11_d2 g11_d3 t0 t2 dt y0_0_0 y0_0_1 theta v_0_0 v_0_1 dW0_0_0 dW0_0_1 = a2
-  generalize Gen.grad_euler_i_general_22_g01_d1_7592549b1609 f0 f0_d1 f0_d2 f0_d3 f1 f1_d1 f1_d2 f1_d3 g00 g00_d1 g00_d2 g00_d3 g01 g01_d1 g01_d2 g01_d3 g10 g10_d1 g10_d2 g10_d3 g11 g11_d1 g11_d2 g11_d3 t0 t2 dt y0_0_0 y0_0_1 theta v_0_0 v_0_1 dW0_0_0 dW0_0_1 = a3
-  generalize Gen.grad_euler_i_general_22_g10_d1_59805037ed9a f0 f0_d1 f0_d2 f0_d3 f1 f1_d1 f1_d2 f1_d3 g00 g00_d1 g00_d2 g00_d3 g01 g01_d1 g01_d2 g01_d3 g10 g10_d1 g10_d2 g10_d3 g11 g11_d1 g11_d2 g11_d3 t0 t2 dt y0_0_0 y0_0_1 theta v_0_0 v_0_1 dW0_0_0 dW0_0_1 = a4
-  generalize Gen.grad_euler_i_general_22_g11_d1_88bd16bfc9a4 f0 f0_d1 f0_d2 f0_d3 f1 f1_d1 f1_d2 f1_d3 g00 g00_d1 g00_d2 g00_d3 g01 g01_d1 g01_d2 g01_d3 g10 g10_d1 g10_d2 g10_d3 g11 g11_d1 g11_d2 g11_d3 t0 t2 dt y0_0_0 y0_0_1 theta v_0_0 v_0_1 dW0_0_0 dW0_0_1 = a5
+/-- `gradp_log_ode_s_diagonal_11`: backprop `gth` = forward derivative `tth` -/
+theorem gradp_log_ode_s_diagonal_11_gth  (f : K → K → K → K) (f_d1 : K → K → K → K) (f_d2 : K → K → K → K) (g : K → K → K → K) (g_d1 : K → K → K → K) (g_d2 : K → K → K → K) (t0 t2 dt y0_0_0 theta v_0_0 dW0_0_0 dW1_0_0 U0_0_0 U1_0_0 A0_0_0_0 A1_0_0_0 : K) :
+    Gen.gradp_log_ode_s_diagonal_11_gth f f_d1 f_d2 g g_d1 g_d2 t0 t2 dt y0_0_0 theta v_0_0 dW0_0_0 dW1_0_0 U0_0_0 U1_0_0 A0_0_0_0 A1_0_0_0 = Gen.gradp_log_ode_s_diagonal_11_tth f f_d1 f_d2 g g_d1 g_d2 t0 t2 dt y0_0_0 theta v_0_0 dW0_0_0 dW1_0_0 U0_0_0 U1_0_0 A0_0_0_0 A1_0_0_0 := by
+  simp only [Gen.gradp_log_ode_s_diagonal_11_gth, Gen.gradp_log_ode_s_diagonal_11_tth]
+  generalize Gen.gradp_log_ode_s_diagonal_11_f_d1_aa6e56519ae1 f f_d1 f_d2 g g_d1 g_d2 t0 t2 dt y0_0_0 theta v_0_0 dW0_0_0 dW1_0_0 U0_0_0 U1_0_0 A0_0_0_0 A1_0_0_0 = a0
+  generalize Gen.gradp_log_ode_s_diagonal_11_f_d1_c2712a6d7499 f f_d1 f_d2 g g_d1 g_d2 t0 t2 dt y0_0_0 theta v_0_0 dW0_0_0 dW1_0_0 U0_0_0 U1_0_0 A0_0_0_0 A1_0_0_0 = a1
+  generalize Gen.gradp_log_ode_s_diagonal_11_f_d1_ea194427e5d2 f f_d1 f_d2 g g_d1 g_d2 t0 t2 dt y0_0_0 theta v_0_0 dW0_0_0 dW1_0_0 U0_0_0 U1_0_0 A0_0_0_0 A1_0_0_0 = a2
+  generalize Gen.gradp_log_ode_s_diagonal_11_f_d2_6bf883ebc92c f f_d1 f_d2 g g_d1 g_d2 t0 t2 dt y0_0_0 theta v_0_0 dW0_0_0 dW1_0_0 U0_0_0 U1_0_0 A0_0_0_0 A1_0_0_0 = a3
+  generalize Gen.gradp_log_ode_s_diagonal_11_f_d2_75ad011491cf f f_d1 f_d2 g g_d1 g_d2 t0 t2 dt y0_0_0 theta v_0_0 dW0_0_0 dW1_0_0 U0_0_0 U1_0_0 A0_0_0_0 A1_0_0_0 = a4
+  generalize Gen.gradp_log_ode_s_diagonal_11_f_d2_9f37c3dc046f f f_d1 f_d2 g g_d1 g_d2 t0 t2 dt y0_0_0 theta v_0_0 dW0_0_0 dW1_0_0 U0_0_0 U1_0_0 A0_0_0_0 A1_0_0_0 = a5
+  generalize Gen.gradp_log_ode_s_diagonal_11_f_d2_d7cbc9408b90 f f_d1 f_d2 g g_d1 g_d2 t0 t2 dt y0_0_0 theta v_0_0 dW0_0_0 dW1_0_0 U0_0_0 U1_0_0 A0_0_0_0 A1_0_0_0 = a6
+  generalize Gen.gradp_log_ode_s_diagonal_11_g_d1_76b5237ed2e6 f f_d1 f_d2 g g_d1 g_d2 t0 t2 dt y0_0_0 theta v_0_0 dW0_0_0 dW1_0_0 U0_0_0 U1_0_0 A0_0_0_0 A1_0_0_0 = a7
+  generalize Gen.gradp_log_ode_s_diagonal_11_g_d1_b39451c7c697 f f_d1 f_d2 g g_d1 g_d2 t0 t2 dt y0_0_0 theta v_0_0 dW0_0_0 dW1_0_0 U0_0_0 U1_0_0 A0_0_0_0 A1_0_0_0 = a8
+  generalize Gen.gradp_log_ode_s_diagonal_11_g_d1_d76ea1a1c502 f f_d1 f_d2 g g_d1 g_d2 t0 t2 dt y0_0_0 theta v_0_0 dW0_0_0 dW1_0_0 U0_0_0 U1_0_0 A0_0_0_0 A1_0_0_0 = a9
+  generalize Gen.gradp_log_ode_s_diagonal_11_g_d2_39921a596628 f f_d1 f_d2 g g_d1 g_d2 t0 t2 dt y0_0_0 theta v_0_0 dW0_0_0 dW1_0_0 U0_0_0 U1_0_0 A0_0_0_0 A1_0_0_0 = a10
+  generalize Gen.gradp_log_ode_s_diagonal_11_g_d2_722b7a6bbfae f f_d1 f_d2 g g_d1 g_d2 t0 t2 dt y0_0_0 theta v_0_0 dW0_0_0 dW1_0_0 U0_0_0 U1_0_0 A0_0_0_0 A1_0_0_0 = a11
+  generalize Gen.gradp_log_ode_s_diagonal_11_g_d2_8f2c51adb79d f f_d1 f_d2 g g_d1 g_d2 t0 t2 dt y0_0_0 theta v_0_0 dW0_0_0 dW1_0_0 U0_0_0 U1_0_0 A0_0_0_0 A1_0_0_0 = a12
+  generalize Gen.gradp_log_ode_s_diagonal_11_g_d2_e3437f9b71a5 f f_d1 f_d2 g g_d1 g_d2 t0 t2 dt y0_0_0 theta v_0_0 dW0_0_0 dW1_0_0 U0_0_0 U1_0_0 A0_0_0_0 A1_0_0_0 = a13
   ring
 
 set_option maxHeartbeats 4000000 in
-/-- `grad_euler_i_general_22`: backprop `gy_0_1` = forward derivative `ty_0_1` -/
-theorem grad_euler_i_general_22_gy_0_1  (f0 : K → K → K → K → K) (f0_d1 : K → K → K → K → K) (f0_d2 : K → K → K → K → K) (f0_d3 : K → K → K → K → K) (f1 : K → K → K → K → K) (f1_d1 : K → K → K → K → K) (f1_d2 : K → K → K → K → K) (f1_d3 : K → K → K → K → K) (g00 : K → K → K → K → K) (g00_d1 : K → K → K → K → K) (g00_d2 : K → K → K → K → K) (g00_d3 : K → K → K → K → K) (g01 : K → K → K → K → K) (g01_d1 : K → K → K → K → K) (g01_d2 : K → K → K → K → K) (g01_d3 : K → K → K → K → K) (g10 : K → K → K → K → K) (g10_d1 : K → K → K → K → K) (g10_d2 : K → K → K → K → K) (g10_d3 : K → K → K → K → K) (g11 : K → K → K → K → K) (g11_d1 : K → K → K → K → K) (g11_d2 : K → K → K → K → K) (g11_d3 : K → K → K → K → K) (t0 t2 dt y0_0_0 y0_0_1 theta v_0_0 v_0_1 dW0_0_0 dW0_0_1 : K) :
-    Gen.grad_euler_i_general_22_gy_0_1 f0 f0_d1 f0_d2 f0_d3 f1 f1_d1 f1_d2 f1_d3 g00 g00_d1 g00_d2 g00_d3 g01 g01_d1 g01_d2 g01_d3 g10 g10_d1 g10_d2 g10_d3 g11 g11_d1 g11_d2 g11_d3 t0 t2 dt y0_0_0 y0_0_1 theta v_0_0 v_0_1 dW0_0_0 dW0_0_1 = Gen.grad_euler_i_general_22_ty_0_1 f0 f0_d1 f0_d2 f0_d3 f1 f1_d1 f1_d2 f1_d3 g00 g00_d1 g00_d2 g00_d3 g01 g01_d1 g01_d2 g01_d3 g10 g10_d1 g10_d2 g10_d3 g11 g11_d1 g11_d2 g11_d3 t0 t2 dt y0_0_0 y0_0_1 theta v_0_0 v_0_1 dW0_0_0 dW0_0_1 := by
-  simp only [Gen.grad_euler_i_general_22_gy_0_1, Gen.grad_euler_i_general_22_ty_0_1]
-  generalize Gen.grad_euler_i_general_22_f0_d2_c08f7f271659 f0 f0_d1 f0_d2 f0_d3 f1 f1_d1 f1_d2 f1_d3 g00 g00_d1 g00_d2 g00_d3 g01 g01_d1 g01_d2 g01_d3 g10 g10_d1 g10_d2 g10_d3 g11 g11_d1 g11_d2 g11_d3 t0 t2 dt y0_0_0 y0_0_1 theta v_0_0 v_0_1 dW0_0_0 dW0_0_1 = a0
-  generalize Gen.grad_euler_i_general_22_f1_d2_0cc4972e78ba f0 f0_d1 f0_d2 f0_d3 f1 f1_d1 f1_d2 f1_d3 g00 g00_d1 g00_d2 g00_d3 g01 g01_d1 g01_d2 g01_d3 g10 g10_d1 g10_d2 g10_d3 g11 g11_d1 g11_d2 g11_d3 t0 t2 dt y0_0_0 y0_0_1 theta v_0_0 v_0_1 dW0_0_0 dW0_0_1 = a1
-  generalize Gen.grad_euler_i_general_22_g00_d2_923f70e91096 f0 f0_d1 f0_d2 f0_d3 f1 f1_d1 f1_d2 f1_d3 g00 g00_d1 g00_d2 g00_d3 g01 g01_d1 g01_d2 g01_d3 g10 g10_d1 g10_d2 g10_d3 g11 g11_d1 g11_d2 g11_d3 t0 t2 dt y0_0_0 y0_0_1 theta v_0_0 v_0_1 dW0_0_0 dW0_0_1 = a2
-  generalize Gen.grad_euler_i_general_22_g01_d2_962a65f646b5 f0 f0_d1 f0_d2 f0_d3 f1 f1_d1 f1_d2 f1_d3 g00 g00_d1 g00_d2 g00_d3 g01 g01_d1 g01_d2 g01_d3 g10 g10_d1 g10_d2 g10_d3 g11 g11_d1 g11_d2 g11_d3 t0 t2 dt y0_0_0 y0_0_1 theta v_0_0 v_0_1 dW0_0_0 dW0_0_1 = a3
-  generalize Gen.grad_euler_i_general_22_g10_d2_bf171d2ca00a f0 f0_d1 f0_d2 f0_d3 f1 f1_d1 f1_d2 f1_d3 g00 g00_d1 g00_d2 g00_d3 g01 g01_d1 g01_d2 g01_d3 g10 g10_d1 g10_d2 g10_d3 g11 g11_d1 g11_d2 g11_d3 t0 t2 dt y0_0_0 y0_0_1 theta v_0_0 v_0_1 dW0_0_0 dW0_0_1 = a4
-  generalize Gen.grad_euler_i_general_22_g11_d2_4d3c1fb23696 f0 f0_d1 f0_d2 f0_d3 f1 f1_d1 f1_d2 f1_d3 g00 g00_d1 g00_d2 g00_d3 g01 g01_d1 g01_d2 g01_d3 g10 g10_d1 g10_d2 g10_d3 g11 g11_d1 g11_d2 g11_d3 t0 t2 dt y0_0_0 y0_0_1 theta v_0_0 v_0_1 dW0_0_0 dW0_0_1 = a5
+/-- `gradp_log_ode_s_general_11`: backprop `gth` = forward derivative `tth` -/
+theorem gradp_log_ode_s_general_11_gth  (f : K → K → K → K) (f_d1 : K → K → K → K) (f_d2 : K → K → K → K) (g : K → K → K → K) (g_d1 : K → K → K → K) (g_d11 : K → K → K → K) (g_d12 : K → K → K → K) (g_d2 : K → K → K → K) (t0 t2 dt y0_0_0 theta v_0_0 dW0_0_0 dW1_0_0 U0_0_0 U1_0_0 A0_0_0_0 A1_0_0_0 : K) :
+    Gen.gradp_log_ode_s_general_11_gth f f_d1 f_d2 g g_d1 g_d11 g_d12 g_d2 t0 t2 dt y0_0_0 theta v_0_0 dW0_0_0 dW1_0_0 U0_0_0 U1_0_0 A0_0_0_0 A1_0_0_0 = Gen.gradp_log_ode_s_general_11_tth f f_d1 f_d2 g g_d1 g_d11 g_d12 g_d2 t0 t2 dt y0_0_0 theta v_0_0 dW0_0_0 dW1_0_0 U0_0_0 U1_0_0 A0_0_0_0 A1_0_0_0 := by
+  simp only [Gen.gradp_log_ode_s_general_11_gth, Gen.gradp_log_ode_s_general_11_tth]
+  generalize Gen.gradp_log_ode_s_general_11_f_d1_bfb0a5b52a42 f f_d1 f_d2 g g_d1 g_d11 g_d12 g_d2 t0 t2 dt y0_0_0 theta v_0_0 dW0_0_0 dW1_0_0 U0_0_0 U1_0_0 A0_0_0_0 A1_0_0_0 = a0
+  generalize Gen.gradp_log_ode_s_general_11_f_d1_c4fcc0e073f5 f f_d1 f_d2 g g_d1 g_d11 g_d12 g_d2 t0 t2 dt y0_0_0 theta v_0_0 dW0_0_0 dW1_0_0 U0_0_0 U1_0_0 A0_0_0_0 A1_0_0_0 = a1
+  generalize Gen.gradp_log_ode_s_general_11_f_d1_ea194427e5d2 f f_d1 f_d2 g g_d1 g_d11 g_d12 g_d2 t0 t2 dt y0_0_0 theta v_0_0 dW0_0_0 dW1_0_0 U0_0_0 U1_0_0 A0_0_0_0 A1_0_0_0 = a2
+  generalize Gen.gradp_log_ode_s_general_11_f_d2_518c3f52f30e f f_d1 f_d2 g g_d1 g_d11 g_d12 g_d2 t0 t2 dt y0_0_0 theta v_0_0 dW0_0_0 dW1_0_0 U0_0_0 U1_0_0 A0_0_0_0 A1_0_0_0 = a3
+  generalize Gen.gradp_log_ode_s_general_11_f_d2_75ad011491cf f f_d1 f_d2 g g_d1 g_d11 g_d12 g_d2 t0 t2 dt y0_0_0 theta v_0_0 dW0_0_0 dW1_0_0 U0_0_0 U1_0_0 A0_0_0_0 A1_0_0_0 = a4
+  generalize Gen.gradp_log_ode_s_general_11_f_d2_d7cbc9408b90 f f_d1 f_d2 g g_d1 g_d11 g_d12 g_d2 t0 t2 dt y0_0_0 theta v_0_0 dW0_0_0 dW1_0_0 U0_0_0 U1_0_0 A0_0_0_0 A1_0_0_0 = a5
+  generalize Gen.gradp_log_ode_s_general_11_f_d2_e62531de9a58 f f_d1 f_d2 g g_d1 g_d11 g_d12 g_d2 t0 t2 dt y0_0_0 theta v_0_0 dW0_0_0 dW1_0_0 U0_0_0 U1_0_0 A0_0_0_0 A1_0_0_0 = a6
+  generalize Gen.gradp_log_ode_s_general_11_g_16e92ac85656 f f_d1 f_d2 g g_d1 g_d11 g_d12 g_d2 t0 t2 dt y0_0_0 theta v_0_0 dW0_0_0 dW1_0_0 U0_0_0 U1_0_0 A0_0_0_0 A1_0_0_0 = a7
+  generalize Gen.gradp_log_ode_s_general_11_g_95cecc4d6a33 f f_d1 f_d2 g g_d1 g_d11 g_d12 g_d2 t0 t2 dt y0_0_0 theta v_0_0 dW0_0_0 dW1_0_0 U0_0_0 U1_0_0 A0_0_0_0 A1_0_0_0 = a8
+  generalize Gen.gradp_log_ode_s_general_11_g_d11_28a6dc55c5b1 f f_d1 f_d2 g g_d1 g_d11 g_d12 g_d2 t0 t2 dt y0_0_0 theta v_0_0 dW0_0_0 dW1_0_0 U0_0_0 U1_0_0 A0_0_0_0 A1_0_0_0 = a9
+  generalize Gen.gradp_log_ode_s_general_11_g_d11_362652d6730e f f_d1 f_d2 g g_d1 g_d11 g_d12 g_d2 t0 t2 dt y0_0_0 theta v_0_0 dW0_0_0 dW1_0_0 U0_0_0 U1_0_0 A0_0_0_0 A1_0_0_0 = a10
+  generalize Gen.gradp_log_ode_s_general_11_g_d12_5c1b89f1be80 f f_d1 f_d2 g g_d1 g_d11 g_d12 g_d2 t0 t2 dt y0_0_0 theta v_0_0 dW0_0_0 dW1_0_0 U0_0_0 U1_0_0 A0_0_0_0 A1_0_0_0 = a11
+  generalize Gen.gradp_log_ode_s_general_11_g_d12_b4d279eade8b f f_d1 f_d2 g g_d1 g_d11 g_d12 g_d2 t0 t2 dt y0_0_0 theta v_0_0 dW0_0_0 dW1_0_0 U0_0_0 U1_0_0 A0_0_0_0 A1_0_0_0 = a12
+  generalize Gen.gradp_log_ode_s_general_11_g_d1_76b5237ed2e6 f f_d1 f_d2 g g_d1 g_d11 g_d12 g_d2 t0 t2 dt y0_0_0 theta v_0_0 dW0_0_0 dW1_0_0 U0_0_0 U1_0_0 A0_0_0_0 A1_0_0_0 = a13
+  generalize Gen.gradp_log_ode_s_general_11_g_d1_a3139feeccdd f f_d1 f_d2 g g_d1 g_d11 g_d12 g_d2 t0 t2 dt y0_0_0 theta v_0_0 dW0_0_0 dW1_0_0 U0_0_0 U1_0_0 A0_0_0_0 A1_0_0_0 = a14
+  generalize Gen.gradp_log_ode_s_general_11_g_d1_bb2f9228e9ef f f_d1 f_d2 g g_d1 g_d11 g_d12 g_d2 t0 t2 dt y0_0_0 theta v_0_0 dW0_0_0 dW1_0_0 U0_0_0 U1_0_0 A0_0_0_0 A1_0_0_0 = a15
+  generalize Gen.gradp_log_ode_s_general_11_g_d2_4985a914efe9 f f_d1 f_d2 g g_d1 g_d11 g_d12 g_d2 t0 t2 dt y0_0_0 theta v_0_0 dW0_0_0 dW1_0_0 U0_0_0 U1_0_0 A0_0_0_0 A1_0_0_0 = a16
+  generalize Gen.gradp_log_ode_s_general_11_g_d2_722b7a6bbfae f f_d1 f_d2 g g_d1 g_d11 g_d12 g_d2 t0 t2 dt y0_0_0 theta v_0_0 dW0_0_0 dW1_0_0 U0_0_0 U1_0_0 A0_0_0_0 A1_0_0_0 = a17
+  generalize Gen.gradp_log_ode_s_general_11_g_d2_e18534428d0d f f_d1 f_d2 g g_d1 g_d11 g_d12 g_d2 t0 t2 dt y0_0_0 theta v_0_0 dW0_0_0 dW1_0_0 U0_0_0 U1_0_0 A0_0_0_0 A1_0_0_0 = a18
+  generalize Gen.gradp_log_ode_s_general_11_g_d2_e3437f9b71a5 f f_d1 f_d2 g g_d1 g_d11 g_d12 g_d2 t0 t2 dt y0_0_0 theta v_0_0 dW0_0_0 dW1_0_0 U0_0_0 U1_0_0 A0_0_0_0 A1_0_0_0 = a19
   ring
 
 set_option maxHeartbeats 4000000 in
-/-- `grad_euler_i_general_22`: backprop `gth` = forward derivative `tth` -/
-theorem grad_euler_i_general_22_gth  (f0 : K → K → K → K → K) (f0_d1 : K → K → K → K → K) (f0_d2 : K → K → K → K → K) (f0_d3 : K → K → K → K → K) (f1 : K → K → K → K → K) (f1_d1 : K → K → K → K → K) (f1_d2 : K → K → K → K → K) (f1_d3 : K → K → K → K → K) (g00 : K → K → K → K → K) (g00_d1 : K → K → K → K → K) (g00_d2 : K → K → K → K → K) (g00_d3 : K → K → K → K → K) (g01 : K → K → K → K → K) (g01_d1 : K → K → K → K → K) (g01_d2 : K → K → K → K → K) (g01_d3 : K → K → K → K → K) (g10 : K → K → K → K → K) (g10_d1 : K → K → K → K → K) (g10_d2 : K → K → K → K → K) (g10_d3 : K → K → K → K → K) (g11 : K → K → K → K → K) (g11_d1 : K → K → K → K → K) (g11_d2 : K → K → K → K → K) (g11_d3 : K → K → K → K → K) (t0 t2 dt y0_0_0 y0_0_1 theta v_0_0 v_0_1 dW0_0_0 dW0_0_1 : K) :
-    Gen.grad_euler_i_general_22_gth f0 f0_d1 f0_d2 f0_d3 f1 f1_d1 f1_d2 f1_d3 g00 g00_d1 g00_d2 g00_d3 g01 g01_d1 g01_d2 g01_d3 g10 g10_d1 g10_d2 g10_d3 g11 g11_d1 g11_d2 g11_d3 t0 t2 dt y0_0_0 y0_0_1 theta v_0_0 v_0_1 dW0_0_0 dW0_0_1 = Gen.grad_euler_i_general_22_tth f0 f0_d1 f0_d2 f0_d3 f1 f1_d1 f1_d2 f1_d3 g00 g00_d1 g00_d2 g00_d3 g01 g01_d1 g01_d2 g01_d3 g10 g10_d1 g10_d2 g10_d3 g11 g11_d1 g11_d2 g11_d3 t0 t2 dt y0_0_0 y0_0_1 theta v_0_0 v_0_1 dW0_0_0 dW0_0_1 := by
-  simp only [Gen.grad_euler_i_general_22_gth, Gen.grad_euler_i_general_22_tth]
-  generalize Gen.grad_euler_i_general_22_f0_d3_117f0ace4604 f0 f0_d1 f0_d2 f0_d3 f1 f1_d1 f1_d2 f1_d3 g00 g00_d1 g00_d2 g00_d3 g01 g01_d1 g01_d2 g01_d3 g10 g10_d1 g10_d2 g10_d3 g11 g11_d1 g11_d2 g11_d3 t0 t2 dt y0_0_0 y0_0_1 theta v_0_0 v_0_1 dW0_0_0 dW0_0_1 = a0
-  generalize Gen.grad_euler_i_general_22_f1_d3_711269134f9c f0 f0_d1 f0_d2 f0_d3 f1 f1_d1 f1_d2 f1_d3 g00 g00_d1 g00_d2 g00_d3 g01 g01_d1 g01_d2 g01_d3 g10 g10_d1 g10_d2 g10_d3 g11 g11_d1 g11_d2 g11_d3 t0 t2 dt y0_0_0 y0_0_1 theta v_0_0 v_0_1 dW0_0_0 dW0_0_1 = a1
-  generalize Gen.grad_euler_i_general_22_g00_d3_b94e31578305 f0 f0_d1 f0_d2 f0_d3 f1 f1_d1 f1_d2 f1_d3 g00 g00_d1 g00_d2 g00_d3 g01 g01_d1 g01_d2 g01_d3 g10 g10_d1 g10_d2 g10_d3 g11 g11_d1 g11_d2 g11_d3 t0 t2 dt y0_0_0 y0_0_1 theta v_0_0 v_0_1 dW0_0_0 dW0_0_1 = a2
-  generalize Gen.grad_euler_i_general_22_g01_d3_36b2116c1fe6 f0 f0_d1 f0_d2 f0_d3 f1 f1_d1 f1_d2 f1_d3 g00 g00_d1 g00_d2 g00_d3 g01 g01_d1 g01_d2 g01_d3 g10 g10_d1 g10_d2 g10_d3 g11 g11_d1 g11_d2 g11_d3 t0 t2 dt y0_0_0 y0_0_1 theta v_0_0 v_0_1 dW0_0_0 dW0_0_1 = a3
-  generalize Gen.grad_euler_i_general_22_g10_d3_f3c762927fb5 f0 f0_d1 f0_d2 f0_d3 f1 f1_d1 f1_d2 f1_d3 g00 g00_d1 g00_d2 g00_d3 g01 g01_d1 g01_d2 g01_d3 g10 g10_d1 g10_d2 g10_d3 g11 g11_d1 g11_d2 g11_d3 t0 t2 dt y0_0_0 y0_0_1 theta v_0_0 v_0_1 dW0_0_0 dW0_0_1 = a4
-  generalize Gen.grad_euler_i_general_22_g11_d3_a15e18a17a26 f0 f0_d1 f0_d2 f0_d3 f1 f1_d1 f1_d2 f1_d3 g00 g00_d1 g00_d2 g00_d3 g01 g01_d1 g01_d2 g01_d3 g10 g10_d1 g10_d2 g10_d3 g11 g11_d1 g11_d2 g11_d3 t0 t2 dt y0_0_0 y0_0_1 theta v_0_0 v_0_1 dW0_0_0 dW0_0_1 = a5
+/-- `gradp_reversible_heun_s_scalar_11`: backprop `gth` = forward derivative `tth` -/
+theorem gradp_reversible_heun_s_scalar_11_gth  (f : K → K → K → K) (f_d1 : K → K → K → K) (f_d2 : K → K → K → K) (g : K → K → K → K) (g_d1 : K → K → K → K) (g_d2 : K → K → K → K) (t0 t2 dt y0_0_0 theta v_0_0 dW0_0_0 dW1_0_0 : K) :
+    Gen.gradp_reversible_heun_s_scalar_11_gth f f_d1 f_d2 g g_d1 g_d2 t0 t2 dt y0_0_0 theta v_0_0 dW0_0_0 dW1_0_0 = Gen.gradp_reversible_heun_s_scalar_11_tth f f_d1 f_d2 g g_d1 g_d2 t0 t2 dt y0_0_0 theta v_0_0 dW0_0_0 dW1_0_0 := by
+  simp only [Gen.gradp_reversible_heun_s_scalar_11_gth, Gen.gradp_reversible_heun_s_scalar_11_tth]
+  generalize Gen.gradp_reversible_heun_s_scalar_11_f_d1_668ff2e067df f f_d1 f_d2 g g_d1 g_d2 t0 t2 dt y0_0_0 theta v_0_0 dW0_0_0 dW1_0_0 = a0
+  generalize Gen.gradp_reversible_heun_s_scalar_11_f_d1_7d8b6bbb9a6e f f_d1 f_d2 g g_d1 g_d2 t0 t2 dt y0_0_0 theta v_0_0 dW0_0_0 dW1_0_0 = a1
+  generalize Gen.gradp_reversible_heun_s_scalar_11_f_d2_75ad011491cf f f_d1 f_d2 g g_d1 g_d2 t0 t2 dt y0_0_0 theta v_0_0 dW0_0_0 dW1_0_0 = a2
+  generalize Gen.gradp_reversible_heun_s_scalar_11_f_d2_aa59138e4563 f f_d1 f_d2 g g_d1 g_d2 t0 t2 dt y0_0_0 theta v_0_0 dW0_0_0 dW1_0_0 = a3
+  generalize Gen.gradp_reversible_heun_s_scalar_11_f_d2_f85d5dcbccb1 f f_d1 f_d2 g g_d1 g_d2 t0 t2 dt y0_0_0 theta v_0_0 dW0_0_0 dW1_0_0 = a4
+  generalize Gen.gradp_reversible_heun_s_scalar_11_g_d1_09229750873c f f_d1 f_d2 g g_d1 g_d2 t0 t2 dt y0_0_0 theta v_0_0 dW0_0_0 dW1_0_0 = a5
+  generalize Gen.gradp_reversible_heun_s_scalar_11_g_d1_18d452194dca f f_d1 f_d2 g g_d1 g_d2 t0 t2 dt y0_0_0 theta v_0_0 dW0_0_0 dW1_0_0 = a6
+  generalize Gen.gradp_reversible_heun_s_scalar_11_g_d2_722b7a6bbfae f f_d1 f_d2 g g_d1 g_d2 t0 t2 dt y0_0_0 theta v_0_0 dW0_0_0 dW1_0_0 = a7
+  generalize Gen.gradp_reversible_heun_s_scalar_11_g_d2_72ad817e521d f f_d1 f_d2 g g_d1 g_d2 t0 t2 dt y0_0_0 theta v_0_0 dW0_0_0 dW1_0_0 = a8
+  generalize Gen.gradp_reversible_heun_s_scalar_11_g_d2_b5ffc99eee28 f f_d1 f_d2 g g_d1 g_d2 t0 t2 dt y0_0_0 theta v_0_0 dW0_0_0 dW1_0_0 = a9
   ring
 
 set_option maxHeartbeats 4000000 in
-/-- `grad_midpoint_s_scalar_21`: backprop `gy_0_0` = forward derivative `ty_0_0` -/
-theorem grad_midpoint_s_scalar_21_gy_0_0  (f0 : K → K → K → K → K) (f0_d1 : K → K → K → K → K) (f0_d2 : K → K → K → K → K) (f0_d3 : K → K → K → K → K) (f1 : K → K → K → K → K) (f1_d1 : K → K → K → K → K) (f1_d2 : K → K → K → K → K) (f1_d3 : K → K → K → K → K) (g00 : K → K → K → K → K) (g00_d1 : K → K → K → K → K) (g00_d2 : K → K → K → K → K) (g00_d3 : K → K → K → K → K) (g10 : K → K → K → K → K) (g10_d1 : K → K → K → K → K) (g10_d2 : K → K → K → K → K) (g10_d3 : K → K → K → K → K) (t0 t2 dt y0_0_0 y0_0_1 theta v_0_0 v_0_1 dW0_0_0 : K) :
-    Gen.grad_midpoint_s_scalar_21_gy_0_0 f0 f0_d1 f0_d2 f0_d3 f1 f1_d1 f1_d2 f1_d3 g00 g00_d1 g00_d2 g00_d3 g10 g10_d1 g10_d2 g10_d3 t0 t2 dt y0_0_0 y0_0_1 theta v_0_0 v_0_1 dW0_0_0 = Gen.grad_midpoint_s_scalar_21_ty_0_0 f0 f0_d1 f0_d2 f0_d3 f1 f1_d1 f1_d2 f1_d3 g00 g00_d1 g00_d2 g00_d3 g10 g10_d1 g10_d2 g10_d3 t0 t2 dt y0_0_0 y0_0_1 theta v_0_0 v_0_1 dW0_0_0 := by
-  simp only [Gen.grad_midpoint_s_scalar_21_gy_0_0, Gen.grad_midpoint_s_scalar_21_ty_0_0]
-  generalize Gen.grad_midpoint_s_scalar_21_f0_d1_7762e1f68fca f0 f0_d1 f0_d2 f0_d3 f1 f1_d1 f1_d2 f1_d3 g00 g00_d1 g00_d2 g00_d3 g10 g10_d1 g10_d2 g10_d3 t0 t2 dt y0_0_0 y0_0_1 theta v_0_0 v_0_1 dW0_0_0 = a0
-  generalize Gen.grad_midpoint_s_scalar_21_f0_d1_f638b6c7ea8e f0 f0_d1 f0_d2 f0_d3 f1 f1_d1 f1_d2 f1_d3 g00 g00_d1 g00_d2 g00_d3 g10 g10_d1 g10_d2 g10_d3 t0 t2 dt y0_0_0 y0_0_1 theta v_0_0 v_0_1 dW0_0_0 = a1
-  generalize Gen.grad_midpoint_s_scalar_21_f0_d2_2fabce5826fa f0 f0_d1 f0_d2 f0_d3 f1 f1_d1 f1_d2 f1_d3 g00 g00_d1 g00_d2 g00_d3 g10 g10_d1 g10_d2 g10_d3 t0 t2 dt y0_0_0 y0_0_1 theta v_0_0 v_0_1 dW0_0_0 = a2
-  generalize Gen.grad_midpoint_s_scalar_21_f1_d1_1deef72810c1 f0 f0_d1 f0_d2 f0_d3 f1 f1_d1 f1_d2 f1_d3 g00 g00_d1 g00_d2 g00_d3 g10 g10_d1 g10_d2 g10_d3 t0 t2 dt y0_0_0 y0_0_1 theta v_0_0 v_0_1 dW0_0_0 = a3
-  generalize Gen.grad_midpoint_s_scalar_21_f1_d1_524f90350aaa f0 f0_d1 f0_d2 f0_d3 f1 f1_d1 f1_d2 f1_d3 g00 g00_d1 g00_d2 g00_d3 g10 g10_d1 g10_d2 g10_d3 t0 t2 dt y0_0_0 y0_0_1 theta v_0_0 v_0_1 dW0_0_0 = a4
-  generalize Gen.grad_midpoint_s_scalar_21_f1_d2_86b454ec534c f0 f0_d1 f0_d2 f0_d3 f1 f1_d1 f1_d2 f1_d3 g00 g00_d1 g00_d2 g00_d3 g10 g10_d1 g10_d2 g10_d3 t0 t2 dt y0_0_0 y0_0_1 theta v_0_0 v_0_1 dW0_0_0 = a5
-  generalize Gen.grad_midpoint_s_scalar_21_g00_d1_265ea2cd0401 f0 f0_d1 f0_d2 f0_d3 f1 f1_d1 f1_d2 f1_d3 g00 g00_d1 g00_d2 g00_d3 g10 g10_d1 g10_d2 g10_d3 t0 t2 dt y0_0_0 y0_0_1 theta v_0_0 v_0_1 dW0_0_0 = a6
-  generalize Gen.grad_midpoint_s_scalar_21_g00_d1_99e549f5f236 f0 f0_d1 f0_d2 f0_d3 f1 f1_d1 f1_d2 f1_d3 g00 g00_d1 g00_d2 g00_d3 g10 g10_d1 g10_d2 g10_d3 t0 t2 dt y0_0_0 y0_0_1 theta v_0_0 v_0_1 dW0_0_0 = a7
-  generalize Gen.grad_midpoint_s_scalar_21_g00_d2_1d9cf77302dc f0 f0_d1 f0_d2 f0_d3 f1 f1_d1 f1_d2 f1_d3 g00 g00_d1 g00_d2 g00_d3 g10 g10_d1 g10_d2 g10_d3 t0 t2 dt y0_0_0 y0_0_1 theta v_0_0 v_0_1 dW0_0_0 = a8
-  generalize Gen.grad_midpoint_s_scalar_21_g10_d1_59805037ed9a f0 f0_d1 f0_d2 f0_d3 f1 f1_d1 f1_d2 f1_d3 g00 g00_d1 g00_d2 g00_d3 g10 g10_d1 g10_d2 g10_d3 t0 t2 dt y0_0_0 y0_0_1 theta v_0_0 v_0_1 dW0_0_0 = a9
-  generalize Gen.grad_midpoint_s_scalar_21_g10_d1_ecb24dbec6bd f0 f0_d1 f0_d2 f0_d3 f1 f1_d1 f1_d2 f1_d3 g00 g00_d1 g00_d2 g00_d3 g10 g10_d1 g10_d2 g10_d3 t0 t2 dt y0_0_0 y0_0_1 theta v_0_0 v_0_1 dW0_0_0 = a10
-  generalize Gen.grad_midpoint_s_scalar_21_g10_d2_e170f524d790 f0 f0_d1 f0_d2 f0_d3 f1 f1_d1 f1_d2 f1_d3 g00 g00_d1 g00_d2 g00_d3 g10 g10_d1 g10_d2 g10_d3 t0 t2 dt y0_0_0 y0_0_1 theta v_0_0 v_0_1 dW0_0_0 = a11
+/-- `grad_heun_s_general_22`: backprop `gth` = forward derivative `tth` -/
+theorem grad_heun_s_general_22_gth  (f0 : K → K → K → K → K) (f0_d1 : K → K → K → K → K) (f0_d2 : K → K → K → K → K) (f0_d3 : K → K → K → K → K) (f1 : K → K → K → K → K) (f1_d1 : K → K → K → K → K) (f1_d2 : K → K → K → K → K) (f1_d3 : K → K → K → K → K) (g00 : K → K → K → K → K) (g00_d1 : K → K → K → K → K) (g00_d2 : K → K → K → K → K) (g00_d3 : K → K → K → K → K) (g01 : K → K → K → K → K) (g01_d1 : K → K → K → K → K) (g01_d2 : K → K → K → K → K) (g01_d3 : K → K → K → K → K) (g10 : K → K → K → K → K) (g10_d1 : K → K → K → K → K) (g10_d2 : K → K → K → K → K) (g10_d3 : K → K → K → K → K) (g11 : K → K → K → K → K) (g11_d1 : K → K → K → K → K) (g11_d2 : K → K → K → K → K) (g11_d3 : K → K → K → K → K) (t0 t2 dt y0_0_0 y0_0_1 theta v_0_0 v_0_1 dW0_0_0 dW0_0_1 : K) :
+    Gen.grad_heun_s_general_22_gth f0 f0_d1 f0_d2 f0_d3 f1 f1_d1 f1_d2 f1_d3 g00 g00_d1 g00_d2 g00_d3 g01 g01_d1 g01_d2 g01_d3 g10 g10_d1 g10_d2 g10_d3 g11 g11_d1 g11_d2 g11_d3 t0 t2 dt y0_0_0 y0_0_1 theta v_0_0 v_0_1 dW0_0_0 dW0_0_1 = Gen.grad_heun_s_general_22_tth f0 f0_d1 f0_d2 f0_d3 f1 f1_d1 f1_d2 f1_d3 g00 g00_d1 g00_d2 g00_d3 g01 g01_d1 g01_d2 g01_d3 g10 g10_d1 g10_d2 g10_d3 g11 g11_d1 g11_d2 g11_d3 t0 t2 dt y0_0_0 y0_0_1 theta v_0_0 v_0_1 dW0_0_0 dW0_0_1 := by
+  simp only [Gen.grad_heun_s_general_22_gth, Gen.grad_heun_s_general_22_tth]
+  generalize Gen.grad_heun_s_general_22_f0_d1_966dde872490 f0 f0_d1 f0_d2 f0_d3 f1 f1_d1 f1_d2 f1_d3 g00 g00_d1 g00_d2 g00_d3 g01 g01_d1 g01_d2 g01_d3 g10 g10_d1 g10_d2 g10_d3 g11 g11_d1 g11_d2 g11_d3 t0 t2 dt y0_0_0 y0_0_1 theta v_0_0 v_0_1 dW0_0_0 dW0_0_1 = a0
+  generalize Gen.grad_heun_s_general_22_f0_d2_8e99394ad5f4 f0 f0_d1 f0_d2 f0_d3 f1 f1_d1 f1_d2 f1_d3 g00 g00_d1 g00_d2 g00_d3 g01 g01_d1 g01_d2 g01_d3 g10 g10_d1 g10_d2 g10_d3 g11 g11_d1 g11_d2 g11_d3 t0 t2 dt y0_0_0 y0_0_1 theta v_0_0 v_0_1 dW0_0_0 dW0_0_1 = a1
+  generalize Gen.grad_heun_s_general_22_f0_d3_0b5a945a3ce6 f0 f0_d1 f0_d2 f0_d3 f1 f1_d1 f1_d2 f1_d3 g00 g00_d1 g00_d2 g00_d3 g01 g01_d1 g01_d2 g01_d3 g10 g10_d1 g10_d2 g10_d3 g11 g11_d1 g11_d2 g11_d3 t0 t2 dt y0_0_0 y0_0_1 theta v_0_0 v_0_1 dW0_0_0 dW0_0_1 = a2
+  generalize Gen.grad_heun_s_general_22_f0_d3_117f0ace4604 f0 f0_d1 f0_d2 f0_d3 f1 f1_d1 f1_d2 f1_d3 g00 g00_d1 g00_d2 g00_d3 g01 g01_d1 g01_d2 g01_d3 g10 g10_d1 g10_d2 g10_d3 g11 g11_d1 g11_d2 g11_d3 t0 t2 dt y0_0_0 y0_0_1 theta v_0_0 v_0_1 dW0_0_0 dW0_0_1 = a3
+  generalize Gen.grad_heun_s_general_22_f1_d1_ab6ffef685ab f0 f0_d1 f0_d2 f0_d3 f1 f1_d1 f1_d2 f1_d3 g00 g00_d1 g00_d2 g00_d3 g01 g01_d1 g01_d2 g01_d3 g10 g10_d1 g10_d2 g10_d3 g11 g11_d1 g11_d2 g11_d3 t0 t2 dt y0_0_0 y0_0_1 theta v_0_0 v_0_1 dW0_0_0 dW0_0_1 = a4
+  generalize Gen.grad_heun_s_general_22_f1_d2_febc1254eb36 f0 f0_d1 f0_d2 f0_d3 f1 f1_d1 f1_d2 f1_d3 g00 g00_d1 g00_d2 g00_d3 g01 g01_d1 g01_d2 g01_d3 g10 g10_d1 g10_d2 g10_d3 g11 g11_d1 g11_d2 g11_d3 t0 t2 dt y0_0_0 y0_0_1 theta v_0_0 v_0_1 dW0_0_0 dW0_0_1 = a5
+  generalize Gen.grad_heun_s_general_22_f1_d3_711269134f9c f0 f0_d1 f0_d2 f0_d3 f1 f1_d1 f1_d2 f1_d3 g00 g00_d1 g00_d2 g00_d3 g01 g01_d1 g01_d2 g01_d3 g10 g10_d1 g10_d2 g10_d3 g11 g11_d1 g11_d2 g11_d3 t0 t2 dt y0_0_0 y0_0_1 theta v_0_0 v_0_1 dW0_0_0 dW0_0_1 = a6
+  generalize Gen.grad_heun_s_general_22_f1_d3_b69770de3376 f0 f0_d1 f0_d2 f0_d3 f1 f1_d1 f1_d2 f1_d3 g00 g00_d1 g00_d2 g00_d3 g01 g01_d1 g01_d2 g01_d3 g10 g10_d1 g10_d2 g10_d3 g11 g11_d1 g11_d2 g11_d3 t0 t2 dt y0_0_0 y0_0_1 theta v_0_0 v_0_1 dW0_0_0 dW0_0_1 = a7
+  generalize Gen.grad_heun_s_general_22_g00_d1_bdd3267abbf7 f0 f0_d1 f0_d2 f0_d3 f1 f1_d1 f1_d2 f1_d3 g00 g00_d1 g00_d2 g00_d3 g01 g01_d1 g01_d2 g01_d3 g10 g10_d1 g10_d2 g10_d3 g11 g11_d1 g11_d2 g11_d3 t0 t2 dt y0_0_0 y0_0_1 theta v_0_0 v_0_1 dW0_0_0 dW0_0_1 = a8
+  generalize Gen.grad_heun_s_general_22_g00_d2_8fd3604c65e8 f0 f0_d1 f0_d2 f0_d3 f1 f1_d1 f1_d2 f1_d3 g00 g00_d1 g00_d2 g00_d3 g01 g01_d1 g01_d2 g01_d3 g10 g10_d1 g10_d2 g10_d3 g11 g11_d1 g11_d2 g11_d3 t0 t2 dt y0_0_0 y0_0_1 theta v_0_0 v_0_1 dW0_0_0 dW0_0_1 = a9
+  generalize Gen.grad_heun_s_general_22_g00_d3_8bb3b0a4b5e2 f0 f0_d1 f0_d2 f0_d3 f1 f1_d1 f1_d2 f1_d3 g00 g00_d1 g00_d2 g00_d3 g01 g01_d1 g01_d2 g01_d3 g10 g10_d1 g10_d2 g10_d3 g11 g11_d1 g11_d2 g11_d3 t0 t2 dt y0_0_0 y0_0_1 theta v_0_0 v_0_1 dW0_0_0 dW0_0_1 = a10
+  generalize Gen.grad_heun_s_general_22_g00_d3_b94e31578305 f0 f0_d1 f0_d2 f0_d3 f1 f1_d1 f1_d2 f1_d3 g00 g00_d1 g00_d2 g00_d3 g01 g01_d1 g01_d2 g01_d3 g10 g10_d1 g10_d2 g10_d3 g11 g11_d1 g11_d2 g11_d3 t0 t2 dt y0_0_0 y0_0_1 theta v_0_0 v_0_1 dW0_0_0 dW0_0_1 = a11
+  generalize Gen.grad_heun_s_general_22_g01_d1_6dbddb0f12dd f0 f0_d1 f0_d2 f0_d3 f1 f1_d1 f1_d2 f1_d3 g00 g00_d1 g00_d2 g00_d3 g01 g01_d1 g01_d2 g01_d3 g10 g10_d1 g10_d2 g10_d3 g11 g11_d1 g11_d2 g11_d3 t0 t2 dt y0_0_0 y0_0_1 theta v_0_0 v_0_1 dW0_0_0 dW0_0_1 = a12
+  generalize Gen.grad_heun_s_general_22_g01_d2_ca367c8c64d1 f0 f0_d1 f0_d2 f0_d3 f1 f1_d1 f1_d2 f1_d3 g00 g00_d1 g00_d2 g00_d3 g01 g01_d1 g01_d2 g01_d3 g10 g10_d1 g10_d2 g10_d3 g11 g11_d1 g11_d2 g11_d3 t0 t2 dt y0_0_0 y0_0_1 theta v_0_0 v_0_1 dW0_0_0 dW0_0_1 = a13
+  generalize Gen.grad_heun_s_general_22_g01_d3_36b2116c1fe6 f0 f0_d1 f0_d2 f0_d3 f1 f1_d1 f1_d2 f1_d3 g00 g00_d1 g00_d2 g00_d3 g01 g01_d1 g01_d2 g01_d3 g10 g10_d1 g10_d2 g10_d3 g11 g11_d1 g11_d2 g11_d3 t0 t2 dt y0_0_0 y0_0_1 theta v_0_0 v_0_1 dW0_0_0 dW0_0_1 = a14
+  generalize Gen.grad_heun_s_general_22_g01_d3_da8d75a6ae10 f0 f0_d1 f0_d2 f0_d3 f1 f1_d1 f1_d2 f1_d3 g00 g00_d1 g00_d2 g00_d3 g01 g01_d1 g01_d2 g01_d3 g10 g10_d1 g10_d2 g10_d3 g11 g11_d1 g11_d2 g11_d3 t0 t2 dt y0_0_0 y0_0_1 theta v_0_0 v_0_1 dW0_0_0 dW0_0_1 = a15
+  generalize Gen.grad_heun_s_general_22_g10_d1_3c3c0918a96c f0 f0_d1 f0_d2 f0_d3 f1 f1_d1 f1_d2 f1_d3 g00 g00_d1 g00_d2 g00_d3 g01 g01_d1 g01_d2 g01_d3 g10 g10_d1 g10_d2 g10_d3 g11 g11_d1 g11_d2 g11_d3 t0 t2 dt y0_0_0 y0_0_1 theta v_0_0 v_0_1 dW0_0_0 dW0_0_1 = a16
+  generalize Gen.grad_heun_s_general_22_g10_d2_f1930a917805 f0 f0_d1 f0_d2 f0_d3 f1 f1_d1 f1_d2 f1_d3 g00 g00_d1 g00_d2 g00_d3 g01 g01_d1 g01_d2 g01_d3 g10 g10_d1 g10_d2 g10_d3 g11 g11_d1 g11_d2 g11_d3 t0 t2 dt y0_0_0 y0_0_1 theta v_0_0 v_0_1 dW0_0_0 dW0_0_1 = a17
+  generalize Gen.grad_heun_s_general_22_g10_d3_69c02027c7f3 f0 f0_d1 f0_d2 f0_d3 f1 f1_d1 f1_d2 f1_d3 g00 g00_d1 g00_d2 g00_d3 g01 g01_d1 g01_d2 g01_d3 g10 g10_d1 g10_d2 g10_d3 g11 g11_d1 g11_d2 g11_d3 t0 t2 dt y0_0_0 y0_0_1 theta v_0_0 v_0_1 dW0_0_0 dW0_0_1 = a18
+  generalize Gen.grad_heun_s_general_22_g10_d3_f3c762927fb5 f0 f0_d1 f0_d2 f0_d3 f1 f1_d1 f1_d2 f1_d3 g00 g00_d1 g00_d2 g00_d3 g01 g01_d1 g01_d2 g01_d3 g10 g10_d1 g10_d2 g10_d3 g11 g11_d1 g11_d2 g11_d3 t0 t2 dt y0_0_0 y0_0_1 theta v_0_0 v_0_1 dW0_0_0 dW0_0_1 = a19
+  generalize Gen.grad_heun_s_general_22_g11_d1_642a7b75741c f0 f0_d1 f0_d2 f0_d3 f1 f1_d1 f1_d2 f1_d3 g00 g00_d1 g00_d2 g00_d3 g01 g01_d1 g01_d2 g01_d3 g10 g10_d1 g10_d2 g10_d3 g11 g11_d1 g11_d2 g11_d3 t0 t2 dt y0_0_0 y0_0_1 theta v_0_0 v_0_1 dW0_0_0 dW0_0_1 = a20
+  generalize Gen.grad_heun_s_general_22_g11_d2_69624d7e69ff f0 f0_d1 f0_d2 f0_d3 f1 f1_d1 f1_d2 f1_d3 g00 g00_d1 g00_d2 g00_d3 g01 g01_d1 g01_d2 g01_d3 g10 g10_d1 g10_d2 g10_d3 g11 g11_d1 g11_d2 g11_d3 t0 t2 dt y0_0_0 y0_0_1 theta v_0_0 v_0_1 dW0_0_0 dW0_0_1 = a21
+  generalize Gen.grad_heun_s_general_22_g11_d3_1eb131650802 f0 f0_d1 f0_d2 f0_d3 f1 f1_d1 f1_d2 f1_d3 g00 g00_d1 g00_d2 g00_d3 g01 g01_d1 g01_d2 g01_d3 g10 g10_d1 g10_d2 g10_d3 g11 g11_d1 g11_d2 g11_d3 t0 t2 dt y0_0_0 y0_0_1 theta v_0_0 v_0_1 dW0_0_0 dW0_0_1 = a22
+  generalize Gen.grad_heun_s_general_22_g11_d3_a15e18a17a26 f0 f0_d1 f0_d2 f0_d3 f1 f1_d1 f1_d2 f1_d3 g00 g00_d1 g00_d2 g00_d3 g01 g01_d1 g01_d2 g01_d3 g10 g10_d1 g10_d2 g10_d3 g11 g11_d1 g11_d2 g11_d3 t0 t2 dt y0_0_0 y0_0_1 theta v_0_0 v_0_1 dW0_0_0 dW0_0_1 = a23
   ring
 
 set_option maxHeartbeats 4000000 in
-/-- `grad_midpoint_s_scalar_21`: backprop `gy_0_1` = forward derivative `ty_0_1` -/
-theorem grad_midpoint_s_scalar_21_gy_0_1  (f0 : K → K → K → K → K) (f0_d1 : K → K → K → K → K) (f0_d2 : K → K → K → K → K) (f0_d3 : K → K → K → K → K) (f1 : K → K → K → K → K) (f1_d1 : K → K → K → K → K) (f1_d2 : K → K → K → K → K) (f1_d3 : K → K → K → K → K) (g00 : K → K → K → K → K) (g00_d1 : K → K → K → K → K) (g00_d2 : K → K → K → K → K) (g00_d3 : K → K → K → K → K) (g10 : K → K → K → K → K) (g10_d1 : K → K → K → K → K) (g10_d2 : K → K → K → K → K) (g10_d3 : K → K → K → K → K) (t0 t2 dt y0_0_0 y0_0_1 theta v_0_0 v_0_1 dW0_0_0 : K) :
-    Gen.grad_midpoint_s_scalar_21_gy_0_1 f0 f0_d1 f0_d2 f0_d3 f1 f1_d1 f1_d2 f1_d3 g00 g00_d1 g00_d2 g00_d3 g10 g10_d1 g10_d2 g10_d3 t0 t2 dt y0_0_0 y0_0_1 theta v_0_0 v_0_1 dW0_0_0 = Gen.grad_midpoint_s_scalar_21_ty_0_1 f0 f0_d1 f0_d2 f0_d3 f1 f1_d1 f1_d2 f1_d3 g00 g00_d1 g00_d2 g00_d3 g10 g10_d1 g10_d2 g10_d3 t0 t2 dt y0_0_0 y0_0_1 theta v_0_0 v_0_1 dW0_0_0 := by
-  simp only [Gen.grad_midpoint_s_scalar_21_gy_0_1, Gen.grad_midpoint_s_scalar_21_ty_0_1]
-  generalize Gen.grad_midpoint_s_scalar_21_f0_d1_f638b6c7ea8e f0 f0_d1 f0_d2 f0_d3 f1 f1_d1 f1_d2 f1_d3 g00 g00_d1 g00_d2 g00_d3 g10 g10_d1 g10_d2 g10_d3 t0 t2 dt y0_0_0 y0_0_1 theta v_0_0 v_0_1 dW0_0_0 = a0
-  generalize Gen.grad_midpoint_s_scalar_21_f0_d2_2fabce5826fa f0 f0_d1 f0_d2 f0_d3 f1 f1_d1 f1_d2 f1_d3 g00 g00_d1 g00_d2 g00_d3 g10 g10_d1 g10_d2 g10_d3 t0 t2 dt y0_0_0 y0_0_1 theta v_0_0 v_0_1 dW0_0_0 = a1
-  generalize Gen.grad_midpoint_s_scalar_21_f0_d2_c08f7f271659 f0 f0_d1 f0_d2 f0_d3 f1 f1_d1 f1_d2 f1_d3 g00 g00_d1 g00_d2 g00_d3 g10 g10_d1 g10_d2 g10_d3 t0 t2 dt y0_0_0 y0_0_1 theta v_0_0 v_0_1 dW0_0_0 = a2
-  generalize Gen.grad_midpoint_s_scalar_21_f1_d1_524f90350aaa f0 f0_d1 f0_d2 f0_d3 f1 f1_d1 f1_d2 f1_d3 g00 g00_d1 g00_d2 g00_d3 g10 g10_d1 g10_d2 g10_d3 t0 t2 dt y0_0_0 y0_0_1 theta v_0_0 v_0_1 dW0_0_0 = a3
-  generalize Gen.grad_midpoint_s_scalar_21_f1_d2_0cc4972e78ba f0 f0_d1 f0_d2 f0_d3 f1 f1_d1 f1_d2 f1_d3 g00 g00_d1 g00_d2 g00_d3 g10 g10_d1 g10_d2 g10_d3 t0 t2 dt y0_0_0 y0_0_1 theta v_0_0 v_0_1 dW0_0_0 = a4
-  generalize Gen.grad_midpoint_s_scalar_21_f1_d2_86b454ec534c f0 f0_d1 f0_d2 f0_d3 f1 f1_d1 f1_d2 f1_d3 g00 g00_d1 g00_d2 g00_d3 g10 g10_d1 g10_d2 g10_d3 t0 t2 dt y0_0_0 y0_0_1 theta v_0_0 v_0_1 dW0_0_0 = a5
-  generalize Gen.grad_midpoint_s_scalar_21_g00_d1_265ea2cd0401 f0 f0_d1 f0_d2 f0_d3 f1 f1_d1 f1_d2 f1_d3 g00 g00_d1 g00_d2 g00_d3 g10 g10_d1 g10_d2 g10_d3 t0 t2 dt y0_0_0 y0_0_1 theta v_0_0 v_0_1 dW0_0_0 = a6
-  generalize Gen.grad_midpoint_s_scalar_21_g00_d2_1d9cf77302dc f0 f0_d1 f0_d2 f0_d3 f1 f1_d1 f1_d2 f1_d3 g00 g00_d1 g00_d2 g00_d3 g10 g10_d1 g10_d2 g10_d3 t0 t2 dt y0_0_0 y0_0_1 theta v_0_0 v_0_1 dW0_0_0 = a7
-  generalize Gen.grad_midpoint_s_scalar_21_g00_d2_923f70e91096 f0 f0_d1 f0_d2 f0_d3 f1 f1_d1 f1_d2 f1_d3 g00 g00_d1 g00_d2 g00_d3 g10 g10_d1 g10_d2 g10_d3 t0 t2 dt y0_0_0 y0_0_1 theta v_0_0 v_0_1 dW0_0_0 = a8
-  generalize Gen.grad_midpoint_s_scalar_21_g10_d1_ecb24dbec6bd f0 f0_d1 f0_d2 f0_d3 f1 f1_d1 f1_d2 f1_d3 g00 g00_d1 g00_d2 g00_d3 g10 g10_d1 g10_d2 g10_d3 t0 t2 dt y0_0_0 y0_0_1 theta v_0_0 v_0_1 dW0_0_0 = a9
-  generalize Gen.grad_midpoint_s_scalar_21_g10_d2_bf171d2ca00a f0 f0_d1 f0_d2 f0_d3 f1 f1_d1 f1_d2 f1_d3 g00 g00_d1 g00_d2 g00_d3 g10 g10_d1 g10_d2 g10_d3 t0 t2 dt y0_0_0 y0_0_1 theta v_0_0 v_0_1 dW0_0_0 = a10
-  generalize Gen.grad_midpoint_s_scalar_21_g10_d2_e170f524d790 f0 f0_d1 f0_d2 f0_d3 f1 f1_d1 f1_d2 f1_d3 g00 g00_d1 g00_d2 g00_d3 g10 g10_d1 g10_d2 g10_d3 t0 t2 dt y0_0_0 y0_0_1 theta v_0_0 v_0_1 dW0_0_0 = a11
+/-- `grad_heun_s_general_22`: backprop `gy_0_0` = forward derivative `ty_0_0` -/
+theorem grad_heun_s_general_22_gy_0_0  (f0 : K → K → K → K → K) (f0_d1 : K → K → K → K → K) (f0_d2 : K → K → K → K → K) (f0_d3 : K → K → K → K → K) (f1 : K → K → K → K → K) (f1_d1 : K → K → K → K → K) (f1_d2 : K → K → K → K → K) (f1_d3 : K → K → K → K → K) (g00 : K → K → K → K → K) (g00_d1 : K → K → K → K → K) (g00_d2 : K → K → K → K → K) (g00_d3 : K → K → K → K → K) (g01 : K → K → K → K → K) (g01_d1 : K → K → K → K → K) (g01_d2 : K → K → K → K → K) (g01_d3 : K → K → K → K → K) (g10 : K → K → K → K → K) (g10_d1 : K → K → K → K → K) (g10_d2 : K → K → K → K → K) (g10_d3 : K → K → K → K → K) (g11 : K → K → K → K → K) (g11_d1 : K → K → K → K → K) (g11_d2 : K → K → K → K → K) (g11_d3 : K → K → K → K → K) (t0 t2 dt y0_0_0 y0_0_1 theta v_0_0 v_0_1 dW0_0_0 dW0_0_1 : K) :
+    Gen.grad_heun_s_general_22_gy_0_0 f0 f0_d1 f0_d2 f0_d3 f1 f1_d1 f1_d2 f1_d3 g00 g00_d1 g00_d2 g00_d3 g01 g01_d1 g01_d2 g01_d3 g10 g10_d1 g10_d2 g10_d3 g11 g11_d1 g11_d2 g11_d3 t0 t2 dt y0_0_0 y0_0_1 theta v_0_0 v_0_1 dW0_0_0 dW0_0_1 = Gen.grad_heun_s_general_22_ty_0_0 f0 f0_d1 f0_d2 f0_d3 f1 f1_d1 f1_d2 f1_d3 g00 g00_d1 g00_d2 g00_d3 g01 g01_d1 g01_d2 g01_d3 g10 g10_d1 g10_d2 g10_d3 g11 g11_d1 g11_d2 g11_d3 t0 t2 dt y0_0_0 y0_0_1 theta v_0_0 v_0_1 dW0_0_0 dW0_0_1 := by
+  simp only [Gen.grad_heun_s_general_22_gy_0_0, Gen.grad_heun_s_general_22_ty_0_0]
+  generalize Gen.grad_heun_s_general_22_f0_d1_7762e1f68fca f0 f0_d1 f0_d2 f0_d3 f1 f1_d1 f1_d2 f1_d3 g00 g00_d1 g00_d2 g00_d3 g01 g01_d1 g01_d2 g01_d3 g10 g10_d1 g10_d2 g10_d3 g11 g11_d1 g11_d2 g11_d3 t0 t2 dt y0_0_0 y0_0_1 theta v_0_0 v_0_1 dW0_0_0 dW0_0_1 = a0
+  generalize Gen.grad_heun_s_general_22_f0_d1_966dde872490 f0 f0_d1 f0_d2 f0_d3 f1 f1_d1 f1_d2 f1_d3 g00 g00_d1 g00_d2 g00_d3 g01 g01_d1 g01_d2 g01_d3 g10 g10_d1 g10_d2 g10_d3 g11 g11_d1 g11_d2 g11_d3 t0 t2 dt y0_0_0 y0_0_1 theta v_0_0 v_0_1 dW0_0_0 dW0_0_1 = a1
+  generalize Gen.grad_heun_s_general_22_f0_d2_8e99394ad5f4 f0 f0_d1 f0_d2 f0_d3 f1 f1_d1 f1_d2 f1_d3 g00 g00_d1 g00_d2 g00_d3 g01 g01_d1 g01_d2 g01_d3 g10 g10_d1 g10_d2 g10_d3 g11 g11_d1 g11_d2 g11_d3 t0 t2 dt y0_0_0 y0_0_1 theta v_0_0 v_0_1 dW0_0_0 dW0_0_1 = a2
+  generalize Gen.grad_heun_s_general_22_f1_d1_1deef72810c1 f0 f0_d1 f0_d2 f0_d3 f1 f1_d1 f1_d2 f1_d3 g00 g00_d1 g00_d2 g00_d3 g01 g01_d1 g01_d2 g01_d3 g10 g10_d1 g10_d2 g10_d3 g11 g11_d1 g11_d2 g11_d3 t0 t2 dt y0_0_0 y0_0_1 theta v_0_0 v_0_1 dW0_0_0 dW0_0_1 = a3
+  generalize Gen.grad_heun_s_general_22_f1_d1_ab6ffef685ab f0 f0_d1 f0_d2 f0_d3 f1 f1_d1 f1_d2 f1_d3 g00 g00_d1 g00_d2 g00_d3 g01 g01_d1 g01_d2 g01_d3 g10 g10_d1 g10_d2 g10_d3 g11 g11_d1 g11_d2 g11_d3 t0 t2 dt y0_0_0 y0_0_1 theta v_0_0 v_0_1 dW0_0_0 dW0_0_1 = a4
+  generalize Gen.grad_heun_s_general_22_f1_d2_febc1254eb36 f0 f0_d1 f0_d2 f0_d3 f1 f1_d1 f1_d2 f1_d3 g00 g00_d1 g00_d2 g00_d3 g01 g01_d1 g01_d2 g01_d3 g10 g10_d1 g10_d2 g10_d3 g11 g11_d1 g11_d2 g11_d3 t0 t2 dt y0_0_0 y0_0_1 theta v_0_0 v_0_1 dW0_0_0 dW0_0_1 = a5
+  generalize Gen.grad_heun_s_general_22_g00_d1_99e549f5f236 f0 f0_d1 f0_d2 f0_d3 f1 f1_d1 f1_d2 f1_d3 g00 g00_d1 g00_d2 g00_d3 g01 g01_d1 g01_d2 g01_d3 g10 g10_d1 g10_d2 g10_d3 g11 g11_d1 g11_d2 g11_d3 t0 t2 dt y0_0_0 y0_0_1 theta v_0_0 v_0_1 dW0_0_0 dW0_0_1 = a6
+  generalize Gen.grad_heun_s_general_22_g00_d1_bdd3267abbf7 f0 f0_d1 f0_d2 f0_d3 f1 f1_d1 f1_d2 f1_d3 g00 g00_d1 g00_d2 g00_d3 g01 g01_d1 g01_d2 g01_d3 g10 g10_d1 g10_d2 g10_d3 g11 g11_d1 g11_d2 g11_d3 t0 t2 dt y0_0_0 y0_0_1 theta v_0_0 v_0_1 dW0_0_0 dW0_0_1 = a7
+  generalize Gen.grad_heun_s_general_22_g00_d2_8fd3604c65e8 f0 f0_d1 f0_d2 f0_d3 f1 f1_d1 f1_d2 f1_d3 g00 g00_d1 g00_d2 g00_d3 g01 g01_d1 g01_d2 g01_d3 g10 g10_d1 g10_d2 g10_d3 g11 g11_d1 g11_d2 g11_d3 t0 t2 dt y0_0_0 y0_0_1 theta v_0_0 v_0_1 dW0_0_0 dW0_0_1 = a8
+  generalize Gen.grad_heun_s_general_22_g01_d1_6dbddb0f12dd f0 f0_d1 f0_d2 f0_d3 f1 f1_d1 f1_d2 f1_d3 g00 g00_d1 g00_d2 g00_d3 g01 g01_d1 g01_d2 g01_d3 g10 g10_d1 g10_d2 g10_d3 g11 g11_d1 g11_d2 g11_d3 t0 t2 dt y0_0_0 y0_0_1 theta v_0_0 v_0_1 dW0_0_0 dW0_0_1 = a9
+  generalize Gen.grad_heun_s_general_22_g01_d1_7592549b1609 f0 f0_d1 f0_d2 f0_d3 f1 f1_d1 f1_d2 f1_d3 g00 g00_d1 g00_d2 g00_d3 g01 g01_d1 g01_d2 g01_d3 g10 g10_d1 g10_d2 g10_d3 g11 g11_d1 g11_d2 g11_d3 t0 t2 dt y0_0_0 y0_0_1 theta v_0_0 v_0_1 dW0_0_0 dW0_0_1 = a10
+  generalize Gen.grad_heun_s_general_22_g01_d2_ca367c8c64d1 f0 f0_d1 f0_d2 f0_d3 f1 f1_d1 f1_d2 f1_d3 g00 g00_d1 g00_d2 g00_d3 g01 g01_d1 g01_d2 g01_d3 g10 g10_d1 g10_d2 g10_d3 g11 g11_d1 g11_d2 g11_d3 t0 t2 dt y0_0_0 y0_0_1 theta v_0_0 v_0_1 dW0_0_0 dW0_0_1 = a11
+  generalize Gen.grad_heun_s_general_22_g10_d1_3c3c0918a96c f0 f0_d1 f0_d2 f0_d3 f1 f1_d1 f1_d2 f1_d3 g00 g00_d1 g00_d2 g00_d3 g01 g01_d1 g01_d2 g01_d3 g10 g10_d1 g10_d2 g10_d3 g11 g11_d1 g11_d2 g11_d3 t0 t2 dt y0_0_0 y0_0_1 theta v_0_0 v_0_1 dW0_0_0 dW0_0_1 = a12
+  generalize Gen.grad_heun_s_general_22_g10_d1_59805037ed9a f0 f0_d1 f0_d2 f0_d3 f1 f1_d1 f1_d2 f1_d3 g00 g00_d1 g00_d2 g00_d3 g01 g01_d1 g01_d2 g01_d3 g10 g10_d1 g10_d2 g10_d3 g11 g11_d1 g11_d2 g11_d3 t0 t2 dt y0_0_0 y0_0_1 theta v_0_0 v_0_1 dW0_0_0 dW0_0_1 = a13
+  generalize Gen.grad_heun_s_general_22_g10_d2_f1930a917805 f0 f0_d1 f0_d2 f0_d3 f1 f1_d1 f1_d2 f1_d3 g00 g00_d1 g00_d2 g00_d3 g01 g01_d1 g01_d2 g01_d3 g10 g10_d1 g10_d2 g10_d3 g11 g11_d1 g11_d2 g11_d3 t0 t2 dt y0_0_0 y0_0_1 theta v_0_0 v_0_1 dW0_0_0 dW0_0_1 = a14
+  generalize Gen.grad_heun_s_general_22_g11_d1_642a7b75741c f0 f0_d1 f0_d2 f0_d3 f1 f1_d1 f1_d2 f1_d3 g00 g00_d1 g00_d2 g00_d3 g01 g01_d1 g01_d2 g01_d3 g10 g10_d1 g10_d2 g10_d3 g11 g11_d1 g11_d2 g11_d3 t0 t2 dt y0_0_0 y0_0_1 theta v_0_0 v_0_1 dW0_0_0 dW0_0_1 = a15
+  generalize Gen.grad_heun_s_general_22_g11_d1_88bd16bfc9a4 f0 f0_d1 f0_d2 f0_d3 f1 f1_d1 f1_d2 f1_d3 g00 g00_d1 g00_d2 g00_d3 g01 g01_d1 g01_d2 g01_d3 g10 g10_d1 g10_d2 g10_d3 g11 g11_d1 g11_d2 g11_d3 t0 t2 dt y0_0_0 y0_0_1 theta v_0_0 v_0_1 dW0_0_0 dW0_0_1 = a16
+  generalize Gen.grad_heun_s_general_22_g11_d2_69624d7e69ff f0 f0_d1 f0_d2 f0_d3 f1 f1_d1 f1_d2 f1_d3 g00 g00_d1 g00_d2 g00_d3 g01 g01_d1 g01_d2 g01_d3 g10 g10_d1 g10_d2 g10_d3 g11 g11_d1 g11_d2 g11_d3 t0 t2 dt y0_0_0 y0_0_1 theta v_0_0 v_0_1 dW0_0_0 dW0_0_1 = a17
   ring
 
 set_option maxHeartbeats 4000000 in
-/-- `grad_midpoint_s_scalar_21`: backprop `gth` = forward derivative `tth` -/
-theorem grad_midpoint_s_scalar_21_gth  (f0 : K → K → K → K → K) (f0_d1 : K → K → K → K → K) (f0_d2 : K → K → K → K → K) (f0_d3 : K → K → K → K → K) (f1 : K → K → K → K → K) (f1_d1 : K → K → K → K → K) (f1_d2 : K → K → K → K → K) (f1_d3 : K → K → K → K → K) (g00 : K → K → K → K → K) (g00_d1 : K → K → K → K → K) (g00_d2 : K → K → K → K → K) (g00_d3 : K → K → K → K → K) (g10 : K → K → K → K → K) (g10_d1 : K → K → K → K → K) (g10_d2 : K → K → K → K → K) (g10_d3 : K → K → K → K → K) (t0 t2 dt y0_0_0 y0_0_1 theta v_0_0 v_0_1 dW0_0_0 : K) :
-    Gen.grad_midpoint_s_scalar_21_gth f0 f0_d1 f0_d2 f0_d3 f1 f1_d1 f1_d2 f1_d3 g00 g00_d1 g00_d2 g00_d3 g10 g10_d1 g10_d2 g10_d3 t0 t2 dt y0_0_0 y0_0_1 theta v_0_0 v_0_1 dW0_0_0 = Gen.grad_midpoint_s_scalar_21_tth f0 f0_d1 f0_d2 f0_d3 f1 f1_d1 f1_d2 f1_d3 g00 g00_d1 g00_d2 g00_d3 g10 g10_d1 g10_d2 g10_d3 t0 t2 dt y0_0_0 y0_0_1 theta v_0_0 v_0_1 dW0_0_0 := by
-  simp only [Gen.grad_midpoint_s_scalar_21_gth, Gen.grad_midpoint_s_scalar_21_tth]
-  generalize Gen.grad_midpoint_s_scalar_21_f0_d1_f638b6c7ea8e f0 f0_d1 f0_d2 f0_d3 f1 f1_d1 f1_d2 f1_d3 g00 g00_d1 g00_d2 g00_d3 g10 g10_d1 g10_d2 g10_d3 t0 t2 dt y0_0_0 y0_0_1 theta v_0_0 v_0_1 dW0_0_0 = a0
-  generalize Gen.grad_midpoint_s_scalar_21_f0_d2_2fabce5826fa f0 f0_d1 f0_d2 f0_d3 f1 f1_d1 f1_d2 f1_d3 g00 g00_d1 g00_d2 g00_d3 g10 g10_d1 g10_d2 g10_d3 t0 t2 dt y0_0_0 y0_0_1 theta v_0_0 v_0_1 dW0_0_0 = a1
-  generalize Gen.grad_midpoint_s_scalar_21_f0_d3_117f0ace4604 f0 f0_d1 f0_d2 f0_d3 f1 f1_d1 f1_d2 f1_d3 g00 g00_d1 g00_d2 g00_d3 g10 g10_d1 g10_d2 g10_d3 t0 t2 dt y0_0_0 y0_0_1 theta v_0_0 v_0_1 dW0_0_0 = a2
-  generalize Gen.grad_midpoint_s_scalar_21_f0_d3_2b46c70eb389 f0 f0_d1 f0_d2 f0_d3 f1 f1_d1 f1_d2 f1_d3 g00 g00_d1 g00_d2 g00_d3 g10 g10_d1 g10_d2 g10_d3 t0 t2 dt y0_0_0 y0_0_1 theta v_0_0 v_0_1 dW0_0_0 = a3
-  generalize Gen.grad_midpoint_s_scalar_21_f1_d1_524f90350aaa f0 f0_d1 f0_d2 f0_d3 f1 f1_d1 f1_d2 f1_d3 g00 g00_d1 g00_d2 g00_d3 g10 g10_d1 g10_d2 g10_d3 t0 t2 dt y0_0_0 y0_0_1 theta v_0_0 v_0_1 dW0_0_0 = a4
-  generalize Gen.grad_midpoint_s_scalar_21_f1_d2_86b454ec534c f0 f0_d1 f0_d2 f0_d3 f1 f1_d1 f1_d2 f1_d3 g00 g00_d1 g00_d2 g00_d3 g10 g10_d1 g10_d2 g10_d3 t0 t2 dt y0_0_0 y0_0_1 theta v_0_0 v_0_1 dW0_0_0 = a5
-  generalize Gen.grad_midpoint_s_scalar_21_f1_d3_18e643734143 f0 f0_d1 f0_d2 f0_d3 f1 f1_d1 f1_d2 f1_d3 g00 g00_d1 g00_d2 g00_d3 g10 g10_d1 g10_d2 g10_d3 t0 t2 dt y0_0_0 y0_0_1 theta v_0_0 v_0_1 dW0_0_0 = a6
-  generalize Gen.grad_midpoint_s_scalar_21_f1_d3_711269134f9c f0 f0_d1 f0_d2 f0_d3 f1 f1_d1 f1_d2 f1_d3 g00 g00_d1 g00_d2 g00_d3 g10 g10_d1 g10_d2 g10_d3 t0 t2 dt y0_0_0 y0_0_1 theta v_0_0 v_0_1 dW0_0_0 = a7
-  generalize Gen.grad_midpoint_s_scalar_21_g00_d1_265ea2cd0401 f0 f0_d1 f0_d2 f0_d3 f1 f1_d1 f1_d2 f1_d3 g00 g00_d1 g00_d2 g00_d3 g10 g10_d1 g10_d2 g10_d3 t0 t2 dt y0_0_0 y0_0_1 theta v_0_0 v_0_1 dW0_0_0 = a8
-  generalize Gen.grad_midpoint_s_scalar_21_g00_d2_1d9cf77302dc f0 f0_d1 f0_d2 f0_d3 f1 f1_d1 f1_d2 f1_d3 g00 g00_d1 g00_d2 g00_d3 g10 g10_d1 g10_d2 g10_d3 t0 t2 dt y0_0_0 y0_0_1 theta v_0_0 v_0_1 dW0_0_0 = a9
-  generalize Gen.grad_midpoint_s_scalar_21_g00_d3_44b47ead6a31 f0 f0_d1 f0_d2 f0_d3 f1 f1_d1 f1_d2 f1_d3 g00 g00_d1 g00_d2 g00_d3 g10 g10_d1 g10_d2 g10_d3 t0 t2 dt y0_0_0 y0_0_1 theta v_0_0 v_0_1 dW0_0_0 = a10
-  generalize Gen.grad_midpoint_s_scalar_21_g00_d3_b94e31578305 f0 f0_d1 f0_d2 f0_d3 f1 f1_d1 f1_d2 f1_d3 g00 g00_d1 g00_d2 g00_d3 g10 g10_d1 g10_d2 g10_d3 t0 t2 dt y0_0_0 y0_0_1 theta v_0_0 v_0_1 dW0_0_0 = a11
-  generalize Gen.grad_midpoint_s_scalar_21_g10_d1_ecb24dbec6bd f0 f0_d1 f0_d2 f0_d3 f1 f1_d1 f1_d2 f1_d3 g00 g00_d1 g00_d2 g00_d3 g10 g10_d1 g10_d2 g10_d3 t0 t2 dt y0_0_0 y0_0_1 theta v_0_0 v_0_1 dW0_0_0 = a12
-  generalize Gen.grad_midpoint_s_scalar_21_g10_d2_e170f524d790 f0 f0_d1 f0_d2 f0_d3 f1 f1_d1 f1_d2 f1_d3 g00 g00_d1 g00_d2 g00_d3 g10 g10_d1 g10_d2 g10_d3 t0 t2 dt y0_0_0 y0_0_1 theta v_0_0 v_0_1 dW0_0_0 = a13
-  generalize Gen.grad_midpoint_s_scalar_21_g10_d3_25647d00f170 f0 f0_d1 f0_d2 f0_d3 f1 f1_d1 f1_d2 f1_d3 g00 g00_d1 g00_d2 g00_d3 g10 g10_d1 g10_d2 g10_d3 t0 t2 dt y0_0_0 y0_0_1 theta v_0_0 v_0_1 dW0_0_0 = a14
-  generalize Gen.grad_midpoint_s_scalar_21_g10_d3_f3c762927fb5 f0 f0_d1 f0_d2 f0_d3 f1 f1_d1 f1_d2 f1_d3 g00 g00_d1 g00_d2 g00_d3 g10 g10_d1 g10_d2 g10_d3 t0 t2 dt y0_0_0 y0_0_1 theta v_0_0 v_0_1 dW0_0_0 = a15
+/-- `grad_heun_s_general_22`: backprop `gy_0_1` = forward derivative `ty_0_1` -/
+theorem grad_heun_s_general_22_gy_0_1  (f0 : K → K → K → K → K) (f0_d1 : K → K → K → K → K) (f0_d2 : K → K → K → K → K) (f0_d3 : K → K → K → K → K) (f1 : K → K → K → K → K) (f1_d1 : K → K → K → K → K) (f1_d2 : K → K → K → K → K) (f1_d3 : K → K → K → K → K) (g00 : K → K → K → K → K) (g00_d1 : K → K → K → K → K) (g00_d2 : K → K → K → K → K) (g00_d3 : K → K → K → K → K) (g01 : K → K → K → K → K) (g01_d1 : K → K → K → K → K) (g01_d2 : K → K → K → K → K) (g01_d3 : K → K → K → K → K) (g10 : K → K → K → K → K) (g10_d1 : K → K → K → K → K) (g10_d2 : K → K → K → K → K) (g10_d3 : K → K → K → K → K) (g11 : K → K → K → K → K) (g11_d1 : K → K → K → K → K) (g11_d2 : K → K → K → K → K) (g11_d3 : K → K → K → K → K) (t0 t2 dt y0_0_0 y0_0_1 theta v_0_0 v_0_1 dW0_0_0 dW0_0_1 : K) :
+    Gen.grad_heun_s_general_22_gy_0_1 f0 f0_d1 f0_d2 f0_d3 f1 f1_d1 f1_d2 f1_d3 g00 g00_d1 g00_d2 g00_d3 g01 g01_d1 g01_d2 g01_d3 g10 g10_d1 g10_d2 g10_d3 g11 g11_d1 g11_d2 g11_d3 t0 t2 dt y0_0_0 y0_0_1 theta v_0_0 v_0_1 dW0_0_0 dW0_0_1 = Gen.grad_heun_s_general_22_ty_0_1 f0 f0_d1 f0_d2 f0_d3 f1 f1_d1 f1_d2 f1_d3 g00 g00_d1 g00_d2 g00_d3 g01 g01_d1 g01_d2 g01_d3 g10 g10_d1 g10_d2 g10_d3 g11 g11_d1 g11_d2 g11_d3 t0 t2 dt y0_0_0 y0_0_1 theta v_0_0 v_0_1 dW0_0_0 dW0_0_1 := by
+  simp only [Gen.grad_heun_s_general_22_gy_0_1, Gen.grad_heun_s_general_22_ty_0_1]
+  generalize Gen.grad_heun_s_general_22_f0_d1_966dde872490 f0 f0_d1 f0_d2 f0_d3 f1 f1_d1 f1_d2 f1_d3 g00 g00_d1 g00_d2 g00_d3 g01 g01_d1 g01_d2 g01_d3 g10 g10_d1 g10_d2 g10_d3 g11 g11_d1 g11_d2 g11_d3 t0 t2 dt y0_0_0 y0_0_1 theta v_0_0 v_0_1 dW0_0_0 dW0_0_1 = a0
+  generalize Gen.grad_heun_s_general_22_f0_d2_8e99394ad5f4 f0 f0_d1 f0_d2 f0_d3 f1 f1_d1 f1_d2 f1_d3 g00 g00_d1 g00_d2 g00_d3 g01 g01_d1 g01_d2 g01_d3 g10 g10_d1 g10_d2 g10_d3 g11 g11_d1 g11_d2 g11_d3 t0 t2 dt y0_0_0 y0_0_1 theta v_0_0 v_0_1 dW0_0_0 dW0_0_1 = a1
+  generalize Gen.grad_heun_s_general_22_f0_d2_c08f7f271659 f0 f0_d1 f0_d2 f0_d3 f1 f1_d1 f1_d2 f1_d3 g00 g00_d1 g00_d2 g00_d3 g01 g01_d1 g01_d2 g01_d3 g10 g10_d1 g10_d2 g10_d3 g11 g11_d1 g11_d2 g11_d3 t0 t2 dt y0_0_0 y0_0_1 theta v_0_0 v_0_1 dW0_0_0 dW0_0_1 = a2
+  generalize Gen.grad_heun_s_general_22_f1_d1_ab6ffef685ab f0 f0_d1 f0_d2 f0_d3 f1 f1_d1 f1_d2 f1_d3 g00 g00_d1 g00_d2 g00_d3 g01 g01_d1 g01_d2 g01_d3 g10 g10_d1 g10_d2 g10_d3 g11 g11_d1 g11_d2 g11_d3 t0 t2 dt y0_0_0 y0_0_1 theta v_0_0 v_0_1 dW0_0_0 dW0_0_1 = a3
+  generalize Gen.grad_heun_s_general_22_f1_d2_0cc4972e78ba f0 f0_d1 f0_d2 f0_d3 f1 f1_d1 f1_d2 f1_d3 g00 g00_d1 g00_d2 g00_d3 g01 g01_d1 g01_d2 g01_d3 g10 g10_d1 g10_d2 g10_d3 g11 g11_d1 g11_d2 g11_d3 t0 t2 dt y0_0_0 y0_0_1 theta v_0_0 v_0_1 dW0_0_0 dW0_0_1 = a4
+  generalize Gen.grad_heun_s_general_22_f1_d2_febc1254eb36 f0 f0_d1 f0_d2 f0_d3 f1 f1_d1 f1_d2 f1_d3 g00 g00_d1 g00_d2 g00_d3 g01 g01_d1 g01_d2 g01_d3 g10 g10_d1 g10_d2 g10_d3 g11 g11_d1 g11_d2 g11_d3 t0 t2 dt y0_0_0 y0_0_1 theta v_0_0 v_0_1 dW0_0_0 dW0_0_1 = a5
+  generalize Gen.grad_heun_s_general_22_g00_d1_bdd3267abbf7 f0 f0_d1 f0_d2 f0_d3 f1 f1_d1 f1_d2 f1_d3 g00 g00_d1 g00_d2 g00_d3 g01 g01_d1 g01_d2 g01_d3 g10 g10_d1 g10_d2 g10_d3 g11 g11_d1 g11_d2 g11_d3 t0 t2 dt y0_0_0 y0_0_1 theta v_0_0 v_0_1 dW0_0_0 dW0_0_1 = a6
+  generalize Gen.grad_heun_s_general_22_g00_d2_8fd3604c65e8 f0 f0_d1 f0_d2 f0_d3 f1 f1_d1 f1_d2 f1_d3 g00 g00_d1 g00_d2 g00_d3 g01 g01_d1 g01_d2 g01_d3 g10 g10_d1 g10_d2 g10_d3 g11 g11_d1 g11_d2 g11_d3 t0 t2 dt y0_0_0 y0_0_1 theta v_0_0 v_0_1 dW0_0_0 dW0_0_1 = a7
+  generalize Gen.grad_heun_s_general_22_g00_d2_923f70e91096 f0 f0_d1 f0_d2 f0_d3 f1 f1_d1 f1_d2 f1_d3 g00 g00_d1 g00_d2 g00_d3 g01 g01_d1 g01_d2 g01_d3 g10 g10_d1 g10_d2 g10_d3 g11 g11_d1 g11_d2 g11_d3 t0 t2 dt y0_0_0 y0_0_1 theta v_0_0 v_0_1 dW0_0_0 dW0_0_1 = a8
+  generalize Gen.grad_heun_s_general_22_g01_d1_6dbddb0f12dd f0 f0_d1 f0_d2 f0_d3 f1 f1_d1 f1_d2 f1_d3 g00 g00_d1 g00_d2 g00_d3 g01 g01_d1 g01_d2 g01_d3 g10 g10_d1 g10_d2 g10_d3 g11 g11_d1 g11_d2 g11_d3 t0 t2 dt y0_0_0 y0_0_1 theta v_0_0 v_0_1 dW0_0_0 dW0_0_1 = a9
+  generalize Gen.grad_heun_s_general_22_g01_d2_962a65f646b5 f0 f0_d1 f0_d2 f0_d3 f1 f1_d1 f1_d2 f1_d3 g00 g00_d1 g00_d2 g00_d3 g01 g01_d1 g01_d2 g01_d3 g10 g10_d1 g10_d2 g10_d3 g11 g11_d1 g11_d2 g11_d3 t0 t2 dt y0_0_0 y0_0_1 theta v_0_0 v_0_1 dW0_0_0 dW0_0_1 = a10
+  generalize Gen.grad_heun_s_general_22_g01_d2_ca367c8c64d1 f0 f0_d1 f0_d2 f0_d3 f1 f1_d1 f1_d2 f1_d3 g00 g00_d1 g00_d2 g00_d3 g01 g01_d1 g01_d2 g01_d3 g10 g10_d1 g10_d2 g10_d3 g11 g11_d1 g11_d2 g11_d3 t0 t2 dt y0_0_0 y0_0_1 theta v_0_0 v_0_1 dW0_0_0 dW0_0_1 = a11
+  generalize Gen.grad_heun_s_general_22_g10_d1_3c3c0918a96c f0 f0_d1 f0_d2 f0_d3 f1 f1_d1 f1_d2 f1_d3 g00 g00_d1 g00_d2 g00_d3 g01 g01_d1 g01_d2 g01_d3 g10 g10_d1 g10_d2 g10_d3 g11 g11_d1 g11_d2 g11_d3 t0 t2 dt y0_0_0 y0_0_1 theta v_0_0 v_0_1 dW0_0_0 dW0_0_1 = a12
+  generalize Gen.grad_heun_s_general_22_g10_d2_bf171d2ca00a f0 f0_d1 f0_d2 f0_d3 f1 f1_d1 f1_d2 f1_d3 g00 g00_d1 g00_d2 g00_d3 g01 g01_d1 g01_d2 g01_d3 g10 g10_d1 g10_d2 g10_d3 g11 g11_d1 g11_d2 g11_d3 t0 t2 dt y0_0_0 y0_0_1 theta v_0_0 v_0_1 dW0_0_0 dW0_0_1 = a13
+  generalize Gen.grad_heun_s_general_22_g10_d2_f1930a917805 f0 f0_d1 f0_d2 f0_d3 f1 f1_d1 f1_d2 f1_d3 g00 g00_d1 g00_d2 g00_d3 g01 g01_d1 g01_d2 g01_d3 g10 g10_d1 g10_d2 g10_d3 g11 g11_d1 g11_d2 g11_d3 t0 t2 dt y0_0_0 y0_0_1 theta v_0_0 v_0_1 dW0_0_0 dW0_0_1 = a14
+  generalize Gen.grad_heun_s_general_22_g11_d1_642a7b75741c f0 f0_d1 f0_d2 f0_d3 f1 f1_d1 f1_d2 f1_d3 g00 g00_d1 g00_d2 g00_d3 g01 g01_d1 g01_d2 g01_d3 g10 g10_d1 g10_d2 g10_d3 g11 g11_d1 g11_d2 g11_d3 t0 t2 dt y0_0_0 y0_0_1 theta v_0_0 v_0_1 dW0_0_0 dW0_0_1 = a15
+  generalize Gen.grad_heun_s_general_22_g11_d2_4d3c1fb23696 f0 f0_d1 f0_d2 f0_d3 f1 f1_d1 f1_d2 f1_d3 g00 g00_d1 g00_d2 g00_d3 g01 g01_d1 g01_d2 g01_d3 g10 g10_d1 g10_d2 g10_d3 g11 g11_d1 g11_d2 g11_d3 t0 t2 dt y0_0_0 y0_0_1 theta v_0_0 v_0_1 dW0_0_0 dW0_0_1 = a16
+  generalize Gen.grad_heun_s_general_22_g11_d2_69624d7e69ff f0 f0_d1 f0_d2 f0_d3 f1 f1_d1 f1_d2 f1_d3 g00 g00_d1 g00_d2 g00_d3 g01 g01_d1 g01_d2 g01_d3 g10 g10_d1 g10_d2 g10_d3 g11 g11_d1 g11_d2 g11_d3 t0 t2 dt y0_0_0 y0_0_1 theta v_0_0 v_0_1 dW0_0_0 dW0_0_1 = a17
   ring
 
 end C08
